@@ -1,8 +1,17 @@
 /-
 C04 — message consensus needs 2/3 of snapshot power on identical evidence;
 the elected gas estimate needs quorum, is the median (within [min,max]) and is immutable.
-Property theorems only; helper lemmas are in the `Paloma.Libcons.Lemmas` section below
-the line and are never restated as property theorems.
+
+Two layers (both in Model/Libcons.lean):
+* the pure functions of util/libcons, util/palomath and x/consensus/types (`verifyEvidence`,
+  `verifyGasEstimates`, `median`, `addEvidence`, `addGasEstimate`, `setElected`);
+* the history model `Hist` (one consensus queue, the current snapshot, the log of applied attestation
+  effects; operations = the keeper entry points), on which every clause that the property states over
+  histories is proved for `Hist.run ops` from `Hist.St.init`, for all `ops`.
+
+Helper lemmas (and the definitions used in statements: `snapPower`, `SnapOK`, `lastSub`,
+`Hist.GroupQuorum`, `Hist.EstQuorum`, `Hist.accepted`, `Hist.Res.commits`) are in the section before
+the marker line; the property theorems follow it.
 -/
 import PalomaModel.Model.Libcons
 import PalomaModel.Gen.Consts
@@ -31,7 +40,7 @@ theorem shareSum_eq (s : Snapshot) (l : List Nat) : shareSum s l = sumOver s.val
   | cons a as ih =>
     unfold shareSum foundShares at *
     simp only [List.filterMap_cons, sumOver, Snapshot.share?]
-    cases h : lookup s.vals a <;> simp [← ih, Snapshot.share?]
+    cases h : lookup s.vals a <;> simp [← ih]
 
 theorem lookup_cons (v : Nat × Nat) (vs : List (Nat × Nat)) (a : Nat) :
     lookup (v :: vs) a = if v.1 == a then some v.2 else lookup vs a := by
@@ -221,14 +230,314 @@ theorem midpoint_between (lo hi : Nat) (h : lo ≤ hi) (hhi : hi < U64) :
   unfold midpoint U64 at *
   omega
 
-end Lemmas
 
-/-! ## Property theorems (C04) -/
+/-! ### each validator once: power counted from the snapshot side -/
 
-/-- **winner_has_two_thirds.** If `VerifyEvidence` can return hash `h` as winner, the snapshot
-validators that supplied evidence with exactly that hash hold at least 2/3 of the snapshot
-total; validators outside the snapshot contribute nothing (`share? = none ↦ 0`). -/
-theorem winner_has_two_thirds (s : Snapshot) (evs : List Evidence) (ws : List Nat) (h : Nat)
+def snapPower (s : Snapshot) (grp : List Nat) : Nat :=
+  ((s.vals.filter (fun v => grp.contains v.1)).map (·.2)).sum
+
+theorem sumOver_cons_not_mem (v : Nat × Nat) (vs : List (Nat × Nat)) (l : List Nat) (h : ¬ v.1 ∈ l) :
+    sumOver (v :: vs) l = sumOver vs l := by
+  induction l with
+  | nil => rfl
+  | cons a as ih =>
+    have ha : ¬ v.1 = a := by intro e; apply h; simp [e]
+    have has : ¬ v.1 ∈ as := by intro e; apply h; simp [e]
+    simp only [sumOver, lookup_cons, ih has]
+    simp [ha]
+
+theorem sumOver_le_power (vs : List (Nat × Nat)) (l : List Nat) (hnd : l.Nodup) :
+    sumOver vs l ≤ ((vs.filter (fun v => l.contains v.1)).map (·.2)).sum := by
+  induction vs with
+  | nil =>
+    have : ∀ l, sumOver [] l = 0 := by
+      intro l; induction l with
+      | nil => rfl
+      | cons a as ih => simp [sumOver, ih, lookup]
+    simp [this]
+  | cons v vs ih =>
+    by_cases hm : v.1 ∈ l
+    · have := sumOver_cons_le v vs l hnd
+      have hc : l.contains v.1 = true := by simpa using hm
+      simp only [List.filter_cons, hc, if_true, List.map_cons, List.sum_cons]
+      omega
+    · rw [sumOver_cons_not_mem v vs l hm]
+      have hc : l.contains v.1 = false := by simpa using hm
+      simp only [List.filter_cons, hc]
+      simpa using ih
+
+theorem sublist_sum_le {l₁ l₂ : List Nat} (h : l₁.Sublist l₂) : l₁.sum ≤ l₂.sum := by
+  induction h with
+  | slnil => simp
+  | cons a _ ih => simp only [List.sum_cons]; omega
+  | cons_cons a _ ih => simp only [List.sum_cons]; omega
+
+theorem mem_hashes {evs : List Evidence} {h : Nat} : h ∈ hashes evs ↔ ∃ a, (a, h) ∈ evs := by
+  induction evs with
+  | nil => simp [hashes]
+  | cons e es ih =>
+    simp only [hashes, List.mem_cons, List.mem_filter, ih]
+    constructor
+    · rintro (rfl | ⟨⟨a, ha⟩, _⟩)
+      · exact ⟨e.1, Or.inl rfl⟩
+      · exact ⟨a, Or.inr ha⟩
+    · rintro ⟨a, ha | ha⟩
+      · left; rw [← ha]
+      · by_cases he : h = e.2
+        · exact Or.inl he
+        · right; exact ⟨⟨a, ha⟩, by simpa using he⟩
+
+theorem foundShares_sublist {s : Snapshot} {l₁ l₂ : List Nat} (h : l₁.Sublist l₂) :
+    (foundShares s l₁).Sublist (foundShares s l₂) := by
+  unfold foundShares; exact h.filterMap _
+
+theorem group_consensus_overall (s : Snapshot) (evs : List Evidence) (h : Nat)
+    (hc : (tally s (groupOf evs h)).consensus = true) :
+    (tally s (evs.map (·.1))).consensus = true := by
+  have ⟨hne, hq⟩ := (consensus_iff s _).mp hc
+  apply (consensus_iff s _).mpr
+  have hsub := foundShares_sublist (s := s) (groupOf_sublist evs h)
+  refine ⟨?_, ?_⟩
+  · intro e; rw [e] at hsub; exact hne (List.sublist_nil.mp hsub)
+  · have := sublist_sum_le hsub; unfold shareSum at *; omega
+
+theorem verifyEvidence_winnerIn_iff (s : Snapshot) (evs : List Evidence) (ws : List Nat) :
+    verifyEvidence s evs = .winnerIn ws ↔
+      (tally s (evs.map (·.1))).consensus = true ∧ ws = winners s evs ∧ ws ≠ [] := by
+  unfold verifyEvidence
+  cases hc : (tally s (evs.map (·.1))).consensus
+  · simp
+  · cases hw : winners s evs with
+    | nil =>
+      simp only [Bool.not_true, Bool.false_eq_true, if_false, true_and]
+      constructor
+      · intro h; cases h
+      · rintro ⟨h1, h2⟩; exact absurd h1 h2
+    | cons w ws' =>
+      simp only [Bool.not_true, Bool.false_eq_true, if_false, true_and]
+      constructor
+      · intro h; injection h with h; exact ⟨h.symm, by rw [← h]; simp⟩
+      · rintro ⟨h1, _⟩; rw [h1]
+
+theorem group_nonempty_of_consensus {s : Snapshot} {l : List Nat}
+    (hc : (tally s l).consensus = true) : ∃ a, a ∈ l := by
+  have ⟨hne, _⟩ := (consensus_iff s _).mp hc
+  cases l with
+  | nil => exact absurd rfl hne
+  | cons a _ => exact ⟨a, by simp⟩
+
+theorem lookup_none_of_not_mem (vs : List (Nat × Nat)) (a : Nat) (h : ¬ a ∈ vs.map (·.1)) :
+    lookup vs a = none := by
+  induction vs with
+  | nil => rfl
+  | cons v vs ih =>
+    rw [lookup_cons]
+    have h1 : ¬ v.1 = a := by intro e; apply h; simp [e]
+    have h2 : ¬ a ∈ vs.map (·.1) := by intro e; apply h; simp only [List.map_cons, List.mem_cons]; exact Or.inr e
+    simp only [beq_iff_eq, h1, if_false]
+    exact ih h2
+
+theorem sumOver_cons_mem (v : Nat × Nat) (vs : List (Nat × Nat)) (l : List Nat)
+    (hm : v.1 ∈ l) (hnd : l.Nodup) (hv : lookup vs v.1 = none) :
+    sumOver (v :: vs) l = v.2 + sumOver vs l := by
+  induction l with
+  | nil => cases hm
+  | cons a as ih =>
+    have hnd' := List.nodup_cons.mp hnd
+    simp only [sumOver, lookup_cons]
+    by_cases ha : v.1 = a
+    · subst ha
+      rw [sumOver_cons_not_mem v vs as hnd'.1, hv]
+      simp
+    · have hmem : v.1 ∈ as := by
+        rcases List.mem_cons.mp hm with h | h
+        · exact absurd h ha
+        · exact h
+      rw [ih hmem hnd'.2]
+      simp only [beq_iff_eq, ha, if_false]
+      omega
+
+theorem sumOver_eq_power (vs : List (Nat × Nat)) (hvs : (vs.map (·.1)).Nodup) (l : List Nat)
+    (hnd : l.Nodup) :
+    sumOver vs l = ((vs.filter (fun v => l.contains v.1)).map (·.2)).sum := by
+  induction vs with
+  | nil =>
+    have : ∀ l, sumOver [] l = 0 := by
+      intro l; induction l with
+      | nil => rfl
+      | cons a as ih => simp [sumOver, ih, lookup]
+    simp [this]
+  | cons v vs ih =>
+    have hvs' := List.nodup_cons.mp (by simpa only [List.map_cons] using hvs)
+    by_cases hm : v.1 ∈ l
+    · have hc : l.contains v.1 = true := by simpa using hm
+      rw [sumOver_cons_mem v vs l hm hnd (lookup_none_of_not_mem vs v.1 hvs'.1)]
+      simp only [List.filter_cons, hc, if_true, List.map_cons, List.sum_cons, ih hvs'.2]
+    · have hc : l.contains v.1 = false := by simpa using hm
+      rw [sumOver_cons_not_mem v vs l hm]
+      simp only [List.filter_cons, hc]
+      simpa using ih hvs'.2
+
+theorem foundShares_ne_nil_iff (s : Snapshot) (l : List Nat) :
+    foundShares s l ≠ [] ↔ ∃ a ∈ l, s.share? a ≠ none := by
+  unfold foundShares
+  induction l with
+  | nil => simp
+  | cons a as ih =>
+    simp only [List.filterMap_cons]
+    cases h : s.share? a with
+    | none =>
+      simp only [ih, List.mem_cons]
+      constructor
+      · rintro ⟨b, hb, hb'⟩; exact ⟨b, Or.inr hb, hb'⟩
+      · rintro ⟨b, hb | hb, hb'⟩
+        · subst hb; exact absurd h hb'
+        · exact ⟨b, hb, hb'⟩
+    | some x =>
+      simp only [ne_eq, reduceCtorEq, not_false_eq_true, true_iff]
+      exact ⟨a, by simp, by simp [h]⟩
+
+theorem hashes_nodup (evs : List Evidence) : (hashes evs).Nodup := by
+  induction evs with
+  | nil => simp [hashes]
+  | cons e es ih =>
+    simp only [hashes]
+    rw [List.nodup_cons]
+    refine ⟨by simp [List.mem_filter], ih.sublist List.filter_sublist⟩
+
+theorem nodup_all_eq_length_le_one {l : List Nat} (hnd : l.Nodup) (h : ∀ a ∈ l, ∀ b ∈ l, a = b) :
+    l.length ≤ 1 := by
+  cases l with
+  | nil => simp
+  | cons x xs =>
+    cases xs with
+    | nil => simp
+    | cons y ys =>
+      exfalso
+      have := h x (by simp) y (by simp)
+      subst this
+      have := List.nodup_cons.mp hnd
+      exact this.1 (by simp)
+
+theorem shareSum_eq_snapPower (s : Snapshot) (hs : (s.vals.map (·.1)).Nodup) (l : List Nat)
+    (hl : l.Nodup) : shareSum s l = snapPower s l := by
+  rw [shareSum_eq]; unfold snapPower; exact sumOver_eq_power s.vals hs l hl
+
+/-- a snapshot as `createNewSnapshot` builds it (total = sum of the shares, positive), or the
+    empty one the model starts with -/
+def SnapOK (s : Snapshot) : Prop :=
+  s.vals = [] ∨ ((s.vals.map (·.2)).sum ≤ s.total ∧ 0 < s.total)
+
+theorem winners_nil_of_no_vals (s : Snapshot) (evs : List Evidence) (h : s.vals = []) :
+    winners s evs = [] := by
+  unfold winners
+  apply List.filter_eq_nil_iff.mpr
+  intro w _
+  have : foundShares s (groupOf evs w) = [] := by
+    unfold foundShares
+    apply List.filterMap_eq_nil_iff.mpr
+    intro a _
+    simp [Snapshot.share?, lookup, h]
+  simp [tally, this, Power.consensus]
+
+theorem lookup_ne_none_of_mem (vs : List (Nat × Nat)) (v : Nat × Nat) (hv : v ∈ vs) :
+    lookup vs v.1 ≠ none := by
+  induction vs with
+  | nil => cases hv
+  | cons x xs ih =>
+    rw [lookup_cons]
+    by_cases hx : x.1 = v.1
+    · simp [hx]
+    · simp only [beq_iff_eq, hx, if_false]
+      rcases List.mem_cons.mp hv with e | e
+      · exact absurd (by rw [e]) hx
+      · exact ih e
+
+/-! ### the median -/
+
+theorem insertSorted_perm (x : Nat) (l : List Nat) : (insertSorted x l).Perm (x :: l) := by
+  induction l with
+  | nil => simp [insertSorted]
+  | cons y ys ih =>
+    simp only [insertSorted]
+    split
+    · exact List.Perm.refl _
+    · exact (List.Perm.cons y ih).trans (List.Perm.swap x y ys)
+
+theorem sortAsc_perm (l : List Nat) : (sortAsc l).Perm l := by
+  induction l with
+  | nil => simp [sortAsc]
+  | cons x xs ih => exact (insertSorted_perm x _).trans (List.Perm.cons x ih)
+
+theorem ascending_getElem_le (l : List Nat) (h : Ascending l) (i j : Nat) (hij : i ≤ j) (hj : j < l.length) :
+    l[i]'(by omega) ≤ l[j] := by
+  unfold Ascending at h
+  rcases Nat.lt_or_eq_of_le hij with hlt | heq
+  · exact List.pairwise_iff_getElem.mp h i j (by omega) hj hlt
+  · subst heq; exact Nat.le_refl _
+
+theorem count_le_sorted (w : List Nat) (hw : Ascending w) (i : Nat) (hi : i < w.length)
+    (m : Nat) (hm : w[i] ≤ m) : i + 1 ≤ w.countP (fun x => decide (x ≤ m)) := by
+  have hall : (w.take (i+1)).countP (fun x => decide (x ≤ m)) = (w.take (i+1)).length := by
+    apply List.countP_eq_length.mpr
+    intro a ha
+    obtain ⟨j, hj, rfl⟩ := List.mem_take_iff_getElem.mp ha
+    have hj' : j < i + 1 ∧ j < w.length := by omega
+    have := ascending_getElem_le w hw j i (by omega) hi
+    simp only [decide_eq_true_eq]; omega
+  have hlen : (w.take (i+1)).length = i + 1 := by simp; omega
+  have hsub := (List.take_sublist (i+1) w).countP_le (p := fun x => decide (x ≤ m))
+  omega
+
+theorem count_ge_sorted (w : List Nat) (hw : Ascending w) (i : Nat) (hi : i < w.length)
+    (m : Nat) (hm : m ≤ w[i]) : w.length - i ≤ w.countP (fun x => decide (m ≤ x)) := by
+  have hall : (w.drop i).countP (fun x => decide (m ≤ x)) = (w.drop i).length := by
+    apply List.countP_eq_length.mpr
+    intro a ha
+    obtain ⟨j, hj, rfl⟩ := List.mem_drop_iff_getElem.mp ha
+    have := ascending_getElem_le w hw i (i + j) (by omega) (by omega)
+    simp only [decide_eq_true_eq]; omega
+  have hlen : (w.drop i).length = w.length - i := by simp
+  have hsub := (List.drop_sublist i w).countP_le (p := fun x => decide (m ≤ x))
+  omega
+
+theorem getD_eq_getElem (l : List Nat) (i : Nat) (hi : i < l.length) : l.getD i 0 = l[i] := by
+  simp [List.getD_eq_getElem?_getD, List.getElem?_eq_getElem hi]
+
+theorem midpoint_eq (lo hi : Nat) (h : lo ≤ hi) (hhi : hi < U64) : midpoint lo hi = (lo + hi) / 2 := by
+  unfold midpoint U64 at *
+  omega
+
+/-- unfolding of `median` on a non-empty list, with in-range indexing -/
+theorem median_cases (l : List Nat) (hne : l ≠ []) :
+    let w := sortAsc l
+    ∃ hc : w.length / 2 < w.length,
+      (w.length % 2 = 1 → median l = w[w.length / 2]) ∧
+      (w.length % 2 = 0 → ∃ hc1 : w.length / 2 - 1 < w.length,
+          median l = midpoint w[w.length / 2 - 1] w[w.length / 2]) := by
+  intro w
+  have hlen : 0 < l.length := List.length_pos_iff.mpr hne
+  have hsl : w.length = l.length := length_sortAsc l
+  have hc : w.length / 2 < w.length := by omega
+  refine ⟨hc, ?_, ?_⟩
+  · intro hodd
+    unfold median medianWith
+    simp only [show ¬ l.length < 1 by omega, if_false]
+    have : ¬ ((sortAsc l).length % 2 == 0) = true := by simp; omega
+    simp only [this]
+    exact getD_eq_getElem _ _ hc
+  · intro heven
+    have hc1 : w.length / 2 - 1 < w.length := by omega
+    refine ⟨hc1, ?_⟩
+    unfold median medianWith
+    simp only [show ¬ l.length < 1 by omega, if_false]
+    have : ((sortAsc l).length % 2 == 0) = true := by simp; omega
+    simp only [this, if_true]
+    rw [getD_eq_getElem _ _ hc, getD_eq_getElem _ _ hc1]
+
+/-! ### proofs of the pure-layer property theorems that the history lemmas reuse -/
+
+theorem winner_has_two_thirds_lem (s : Snapshot) (evs : List Evidence) (ws : List Nat) (h : Nat)
     (hv : verifyEvidence s evs = .winnerIn ws) (hh : h ∈ ws) :
     3 * shareSum s (groupOf evs h) ≥ 2 * s.total ∧
     (∀ a ∈ groupOf evs h, (a, h) ∈ evs) := by
@@ -249,9 +558,1062 @@ theorem winner_has_two_thirds (s : Snapshot) (evs : List Evidence) (ws : List Na
       have h2 : e.2 = h := by simpa using this.2
       rw [← h2]; exact this.1
 
-/-- **winner_unique.** With one evidence entry per validator (what `AddEvidence` maintains,
-see `addEvidence_unique`), a snapshot whose total is the sum of its shares and is positive
-admits at most one hash group with quorum: the result does not depend on Go's map order. -/
+theorem estimate_needs_quorum_lem (s : Snapshot) (ests : List (Nat × Nat)) (v : Nat)
+    (h : verifyGasEstimates s ests = .elected v) :
+    3 * shareSum s (ests.map (·.1)) ≥ 2 * s.total ∧ v = median (ests.map (·.2)) ∧ v ≠ 0 := by
+  unfold verifyGasEstimates at h
+  split at h
+  · cases h
+  · rename_i hc
+    have hc' : (tally s (ests.map (·.1))).consensus = true := by simpa using hc
+    simp only at h
+    split at h
+    · cases h
+    · rename_i hz
+      injection h with h
+      refine ⟨((consensus_iff s _).mp hc').2, h.symm, ?_⟩
+      subst h; simpa using hz
+
+theorem median_in_range_lem (l : List Nat) (hne : l ≠ []) (hb : ∀ x ∈ l, x < U64) :
+    ∃ a ∈ l, ∃ b ∈ l, a ≤ median l ∧ median l ≤ b := by
+  have hlen : 0 < l.length := List.length_pos_iff.mpr hne
+  have hsl := length_sortAsc l
+  unfold median medianWith
+  simp only [show ¬ l.length < 1 by omega, if_false]
+  split
+  · rename_i heven
+    have heven' : (sortAsc l).length % 2 = 0 := by simpa using heven
+    have hc : (sortAsc l).length / 2 < (sortAsc l).length := by omega
+    have hc1 : (sortAsc l).length / 2 - 1 < (sortAsc l).length := by omega
+    have hlo := getD_mem (sortAsc l) _ hc1
+    have hhi := getD_mem (sortAsc l) _ hc
+    have hle := ascending_getD_le (sortAsc l) (ascending_sortAsc l) ((sortAsc l).length / 2 - 1)
+      ((sortAsc l).length / 2) (by omega) hc
+    have hbound := hb _ (mem_sortAsc.mp hhi)
+    have := midpoint_between _ _ hle hbound
+    exact ⟨_, mem_sortAsc.mp hlo, _, mem_sortAsc.mp hhi, this.1, this.2⟩
+  · have hc : (sortAsc l).length / 2 < (sortAsc l).length := by omega
+    have hm := getD_mem (sortAsc l) _ hc
+    exact ⟨_, mem_sortAsc.mp hm, _, mem_sortAsc.mp hm, Nat.le_refl _, Nat.le_refl _⟩
+
+theorem median_half_lem (l : List Nat) (hne : l ≠ []) (hb : ∀ x ∈ l, x < U64) :
+    l.length ≤ 2 * l.countP (fun x => decide (x ≤ median l)) ∧
+    l.length ≤ 2 * l.countP (fun x => decide (median l ≤ x)) := by
+  obtain ⟨hc, hodd, heven⟩ := median_cases l hne
+  have hperm := sortAsc_perm l
+  have hasc := ascending_sortAsc l
+  have hsl : (sortAsc l).length = l.length := length_sortAsc l
+  rw [← hperm.countP_eq, ← hperm.countP_eq]
+  rcases Nat.mod_two_eq_zero_or_one (sortAsc l).length with h0 | h1
+  · obtain ⟨hc1, hm⟩ := heven h0
+    have hle := ascending_getElem_le (sortAsc l) hasc ((sortAsc l).length / 2 - 1)
+      ((sortAsc l).length / 2) (by omega) hc
+    have hbound := hb _ (mem_sortAsc.mp (List.getElem_mem hc))
+    have hmid := midpoint_between _ _ hle hbound
+    rw [← hm] at hmid
+    have h1 := count_le_sorted (sortAsc l) hasc _ hc1 (median l) hmid.1
+    have h2 := count_ge_sorted (sortAsc l) hasc _ hc (median l) hmid.2
+    omega
+  · have hm := hodd h1
+    have h1' := count_le_sorted (sortAsc l) hasc _ hc (median l) (by rw [hm]; exact Nat.le_refl _)
+    have h2 := count_ge_sorted (sortAsc l) hasc _ hc (median l) (by rw [hm]; exact Nat.le_refl _)
+    omega
+
+/-! ### latest submission -/
+
+theorem addEvidence_cons (x : Evidence) (xs : List Evidence) (e : Evidence) :
+    addEvidence (x :: xs) e = if x.1 = e.1 then (x.1, e.2) :: xs else x :: addEvidence xs e := by
+  simp only [addEvidence]
+  by_cases h : x.1 = e.1 <;> simp [h]
+
+theorem lookup_nil (a : Nat) : lookup [] a = none := rfl
+
+theorem lookup_cons' (v : Nat × Nat) (vs : List (Nat × Nat)) (a : Nat) :
+    lookup (v :: vs) a = if v.1 = a then some v.2 else lookup vs a := by
+  rw [lookup_cons]
+  by_cases h : v.1 = a <;> simp [h]
+
+theorem lookup_addEvidence (evs : List Evidence) (e : Evidence) (a : Nat) :
+    lookup (addEvidence evs e) a = if e.1 = a then some e.2 else lookup evs a := by
+  induction evs with
+  | nil => simp [addEvidence, lookup_cons', lookup_nil]
+  | cons x xs ih =>
+    rw [addEvidence_cons]
+    by_cases hx : x.1 = e.1
+    · simp only [hx, if_true, lookup_cons']
+      by_cases ha : e.1 = a <;> simp [ha]
+    · simp only [hx, if_false, lookup_cons', ih]
+      by_cases hxa : x.1 = a
+      · have : ¬ e.1 = a := by intro h; exact hx (hxa.trans h.symm)
+        simp [hxa, this]
+      · simp [hxa]
+
+/-- the proof hash of the last submission by validator `a` in `subs` -/
+def lastSub (subs : List Evidence) (a : Nat) : Option Nat :=
+  subs.foldl (fun r e => if e.1 = a then some e.2 else r) none
+
+theorem lookup_foldl_addEvidence (subs acc : List Evidence) (a : Nat) :
+    lookup (subs.foldl addEvidence acc) a =
+      subs.foldl (fun r e => if e.1 = a then some e.2 else r) (lookup acc a) := by
+  induction subs generalizing acc with
+  | nil => rfl
+  | cons e es ih => simp only [List.foldl_cons, ih, lookup_addEvidence]
+
+theorem lastSub_append (pre post : List Evidence) (a : Nat) :
+    lastSub (pre ++ post) a =
+      post.foldl (fun r e => if e.1 = a then some e.2 else r) (lastSub pre a) := by
+  unfold lastSub; rw [List.foldl_append]
+
+theorem foldl_keep (post : List Evidence) (a : Nat) (r : Option Nat) (h : ∀ e ∈ post, e.1 ≠ a) :
+    post.foldl (fun r e => if e.1 = a then some e.2 else r) r = r := by
+  induction post generalizing r with
+  | nil => rfl
+  | cons e es ih =>
+    have he : ¬ e.1 = a := h e (by simp)
+    simp only [List.foldl_cons, he, if_false]
+    exact ih r (fun x hx => h x (by simp [hx]))
+
+theorem mem_iff_lookup (evs : List Evidence) (hnd : (evs.map (·.1)).Nodup) (a h : Nat) :
+    (a, h) ∈ evs ↔ lookup evs a = some h := by
+  induction evs with
+  | nil => simp [lookup_nil]
+  | cons x xs ih =>
+    have hnd' := List.nodup_cons.mp (by simpa only [List.map_cons] using hnd)
+    rw [lookup_cons', List.mem_cons]
+    by_cases hx : x.1 = a
+    · simp only [hx, if_true]
+      constructor
+      · rintro (h1 | h1)
+        · rw [← h1]
+        · exfalso; apply hnd'.1; exact List.mem_map.mpr ⟨(a, h), h1, hx.symm⟩
+      · intro h1; injection h1 with h1; left; rw [← h1, ← hx]
+    · simp only [hx, if_false, ← ih hnd'.2]
+      constructor
+      · rintro (h1 | h1)
+        · exfalso; apply hx; rw [← h1]
+        · exact h1
+      · intro h1; exact Or.inr h1
+
+/-! ### history model -/
+
+namespace Hist
+
+theorem get_nil (id : Nat) : get [] id = none := rfl
+
+theorem get_cons (x : Item) (xs : List Item) (id : Nat) :
+    get (x :: xs) id = if x.id = id then some x else get xs id := by
+  unfold get
+  rw [List.find?_cons]
+  by_cases h : x.id = id
+  · simp [h]
+  · have : (x.id == id) = false := by simpa using h
+    simp [this, h]
+
+theorem get_some {q : List Item} {id : Nat} {it : Item} (h : get q id = some it) :
+    it ∈ q ∧ it.id = id := by
+  unfold get at h
+  exact ⟨List.mem_of_find?_eq_some h, by simpa using List.find?_some h⟩
+
+theorem get_none {q : List Item} {id : Nat} : get q id = none ↔ ∀ it ∈ q, it.id ≠ id := by
+  unfold get
+  simp [List.find?_eq_none]
+
+theorem get_of_mem {q : List Item} {it : Item} (hnd : (q.map (·.id)).Nodup) (h : it ∈ q) :
+    get q it.id = some it := by
+  induction q with
+  | nil => cases h
+  | cons x xs ih =>
+    have hnd' := List.nodup_cons.mp (by simpa only [List.map_cons] using hnd)
+    rw [get_cons]
+    rcases List.mem_cons.mp h with h | h
+    · subst h; simp
+    · have : x.id ≠ it.id := by
+        intro e; apply hnd'.1; exact List.mem_map.mpr ⟨it, h, e.symm⟩
+      simp only [this, if_false]
+      exact ih hnd'.2 h
+
+theorem set_cons (x : Item) (xs : List Item) (it : Item) :
+    set (x :: xs) it = (if x.id = it.id then it else x) :: set xs it := by
+  unfold set
+  by_cases h : x.id = it.id <;> simp [h]
+
+theorem del_cons (x : Item) (xs : List Item) (id : Nat) :
+    del (x :: xs) id = if x.id = id then del xs id else x :: del xs id := by
+  unfold del
+  by_cases h : x.id = id <;> simp [h]
+
+theorem get_set (q : List Item) (it : Item) (id : Nat) :
+    get (set q it) id = if it.id = id then (get q id).map (fun _ => it) else get q id := by
+  induction q with
+  | nil => simp [get, set]
+  | cons x xs ih =>
+    rw [set_cons, get_cons, get_cons, ih]
+    by_cases hx : x.id = it.id
+    · by_cases hi : it.id = id
+      · simp [hx, hi]
+      · have : ¬ x.id = id := by rw [hx]; exact hi
+        simp [hx, hi]
+    · by_cases hxi : x.id = id
+      · subst hxi
+        have h1 : ¬ it.id = x.id := fun e => hx e.symm
+        simp only [hx, if_false, if_true, h1]
+      · simp only [hx, if_false, hxi]
+
+theorem get_del (q : List Item) (id' id : Nat) :
+    get (del q id') id = if id = id' then none else get q id := by
+  induction q with
+  | nil => simp [get, del]
+  | cons x xs ih =>
+    rw [del_cons, get_cons]
+    by_cases hx : x.id = id'
+    · simp only [hx, if_true, ih]
+      by_cases hi : id = id'
+      · simp [hi]
+      · have : ¬ id' = id := fun e => hi e.symm
+        simp [hi, this]
+    · simp only [hx, if_false, get_cons, ih]
+      by_cases hxi : x.id = id
+      · have : ¬ id = id' := by intro e; exact hx (hxi.trans e)
+        simp [hxi, this]
+      · simp [hxi]
+
+theorem get_append_single (q : List Item) (x : Item) (id : Nat) :
+    get (q ++ [x]) id = match get q id with
+      | some it => some it
+      | none => if x.id = id then some x else none := by
+  induction q with
+  | nil => simp [get_cons, get_nil]
+  | cons y ys ih =>
+    rw [List.cons_append, get_cons, get_cons, ih]
+    by_cases h : y.id = id <;> simp [h]
+
+/-- what one operation can do to the state (every other branch leaves it untouched) -/
+inductive Tr (s : St) : Op → St → Prop
+  | same (op : Op) : Tr s op s
+  | snap (sn : Snapshot) : Tr s (.snap sn) { s with snap := sn }
+  | put (req : Bool) : Tr s (.put req)
+      { s with nextId := s.nextId + 1, queue := s.queue ++ [{ id := s.nextId + 1, req := req }] }
+  | ev (id a h : Nat) (it : Item) (hg : get s.queue id = some it) : Tr s (.ev id a h)
+      { s with queue := set s.queue { it with evs := addEvidence it.evs (a, h) } }
+  | est (id a v : Nat) (it : Item) (es : List (Nat × Nat)) (hg : get s.queue id = some it)
+      (hreq : it.req = true) (hv1 : 1 ≤ v) (hv : v < U64)
+      (hadd : addGasEstimate it.ests (a, v) = some es) :
+      Tr s (.est id a v) { s with queue := set s.queue { it with ests := es } }
+  | elect (id g : Nat) (it : Item) (hg : get s.queue id = some it) (hreq : it.req = true)
+      (h0 : it.elected = 0) (hver : verifyGasEstimates s.snap it.ests = .elected g) :
+      Tr s (.elect id true) { s with queue := set s.queue { it with elected := g } }
+  | attest (id hint : Nat) (hard soft : List Nat) (it : Item) (ws : List Nat)
+      (hg : get s.queue id = some it) (hev : it.evs ≠ [])
+      (hver : verifyEvidence s.snap it.evs = .winnerIn ws)
+      (hout : outcomeOf hard soft (pickWinner ws hint) ≠ .hard) :
+      Tr s (.attest id hint hard soft)
+        { s with queue := del s.queue id,
+                 declared := s.declared ++
+                   [(id, pickWinner ws hint, outcomeOf hard soft (pickWinner ws hint) == .soft)] }
+  | prune (id : Nat) (it : Item) (hg : get s.queue id = some it) :
+      Tr s (.prune id) { s with queue := del s.queue id }
+
+theorem step_tr (s : St) (op : Op) : Tr s op (apply s op) := by
+  unfold apply
+  cases op with
+  | snap sn => exact Tr.snap sn
+  | put req => exact Tr.put req
+  | ev id a h =>
+    simp only [step, evStep]
+    split
+    · exact Tr.same _
+    · rename_i it hg; exact Tr.ev id a h it hg
+  | est id a v =>
+    simp only [step, estStep]
+    split
+    · exact Tr.same _
+    · rename_i hv1
+      split
+      · exact Tr.same _
+      · rename_i it hg
+        split
+        · exact Tr.same _
+        · rename_i hreq
+          split
+          · exact Tr.same _
+          · rename_i hv
+            split
+            · exact Tr.same _
+            · rename_i es hadd
+              exact Tr.est id a v it es hg (by simpa using hreq) (by omega) (by simpa using hv) hadd
+  | elect id feeOk =>
+    simp only [step, electStep]
+    split
+    · exact Tr.same _
+    · rename_i it hg
+      split
+      · exact Tr.same _
+      · rename_i hreq
+        split
+        · exact Tr.same _
+        · split
+          · exact Tr.same _
+          · rename_i h0
+            split
+            · exact Tr.same _
+            · exact Tr.same _
+            · rename_i g hver
+              have h0' : it.elected = 0 := by omega
+              simp only [setElected, h0']
+              simp only [bne_self_eq_false, Bool.false_eq_true, if_false]
+              cases feeOk
+              · exact Tr.same _
+              · exact Tr.elect id g it hg (by simpa using hreq) h0' hver
+  | attest id hint hard soft =>
+    simp only [step, attestStep]
+    split
+    · exact Tr.same _
+    · rename_i it hg
+      split
+      · exact Tr.same _
+      · rename_i hev
+        have hev' : it.evs ≠ [] := by
+          intro e; apply hev; simp [e]
+        split
+        · exact Tr.same _
+        · rename_i ws hver
+          have key := Tr.attest (s := s) id hint hard soft it ws hg hev' hver
+          cases ho : outcomeOf hard soft (pickWinner ws hint)
+          · rw [ho] at key; exact key (by decide)
+          · rw [ho] at key; exact key (by decide)
+          · exact Tr.same _
+  | prune id =>
+    simp only [step]
+    split
+    · exact Tr.same _
+    · rename_i it hg; exact Tr.prune id it hg
+
+
+theorem mem_set {q : List Item} {it x : Item} (h : x ∈ set q it) : x = it ∨ x ∈ q := by
+  unfold set at h
+  rcases List.mem_map.mp h with ⟨y, hy, rfl⟩
+  by_cases hc : y.id = it.id
+  · simp [hc]
+  · simp [hc, hy]
+
+theorem set_ids (q : List Item) (it : Item) : (set q it).map (·.id) = q.map (·.id) := by
+  induction q with
+  | nil => rfl
+  | cons x xs ih =>
+    rw [set_cons, List.map_cons, List.map_cons, ih]
+    by_cases h : x.id = it.id <;> simp [h]
+
+theorem mem_del {q : List Item} {id : Nat} {x : Item} (h : x ∈ del q id) : x ∈ q ∧ x.id ≠ id := by
+  unfold del at h
+  have := List.mem_filter.mp h
+  exact ⟨this.1, by simpa using this.2⟩
+
+theorem del_ids_nodup {q : List Item} (id : Nat) (h : (q.map (·.id)).Nodup) :
+    ((del q id).map (·.id)).Nodup := by
+  unfold del
+  exact h.sublist (List.Sublist.map _ List.filter_sublist)
+
+theorem addGasEstimate_nodup (ests ests' : List (Nat × Nat)) (e : Nat × Nat)
+    (hnd : (ests.map (·.1)).Nodup) (h : addGasEstimate ests e = some ests') :
+    (ests'.map (·.1)).Nodup ∧ ests' = ests ++ [e] := by
+  unfold addGasEstimate at h
+  split at h
+  · cases h
+  · rename_i hany
+    injection h with h; subst h
+    refine ⟨?_, rfl⟩
+    simp only [List.map_append, List.map_cons, List.map_nil]
+    rw [List.nodup_append]
+    refine ⟨hnd, by simp, ?_⟩
+    intro a ha b hb
+    simp at hb; subst hb
+    intro e'; subst e'
+    apply hany
+    rcases List.mem_map.mp ha with ⟨x, hx, hx1⟩
+    exact List.any_eq_true.mpr ⟨x, hx, by simp [hx1]⟩
+
+theorem addEvidence_keys_nodup (evs : List Evidence) (e : Evidence) (h : (evs.map (·.1)).Nodup) :
+    ((addEvidence evs e).map (·.1)).Nodup := by
+  rw [addEvidence_keys]
+  split
+  · exact h
+  · rename_i hnot
+    rw [List.nodup_append]
+    refine ⟨h, by simp, ?_⟩
+    intro a ha b hb
+    simp at hb; subst hb
+    intro e'; subst e'; exact hnot ha
+
+/-- the invariant of reachable states -/
+structure Inv (s : St) : Prop where
+  ids_le : ∀ it ∈ s.queue, it.id ≤ s.nextId
+  ids_nodup : (s.queue.map (·.id)).Nodup
+  evs_nodup : ∀ it ∈ s.queue, (it.evs.map (·.1)).Nodup
+  ests_nodup : ∀ it ∈ s.queue, (it.ests.map (·.1)).Nodup
+  ests_u64 : ∀ it ∈ s.queue, ∀ e ∈ it.ests, 1 ≤ e.2 ∧ e.2 < U64
+  decl_gone : ∀ d ∈ s.declared, d.1 ≤ s.nextId ∧ get s.queue d.1 = none
+  decl_nodup : (s.declared.map (·.1)).Nodup
+
+theorem inv_init : Inv St.init := by
+  refine ⟨?_, ?_, ?_, ?_, ?_, ?_, ?_⟩ <;> simp [St.init]
+
+theorem inv_set {s : St} (hI : Inv s) (id : Nat) (it it' : Item) (hg : get s.queue id = some it)
+    (hid : it'.id = it.id) (hevs : (it'.evs.map (·.1)).Nodup) (hests : (it'.ests.map (·.1)).Nodup)
+    (hu : ∀ e ∈ it'.ests, 1 ≤ e.2 ∧ e.2 < U64) : Inv { s with queue := set s.queue it' } := by
+  have ⟨hmem, hitid⟩ := get_some hg
+  refine ⟨?_, ?_, ?_, ?_, ?_, ?_, hI.decl_nodup⟩
+  · intro x hx
+    rcases mem_set hx with rfl | hx
+    · show x.id ≤ s.nextId
+      rw [hid]; exact hI.ids_le it hmem
+    · exact hI.ids_le x hx
+  · show ((set s.queue it').map (·.id)).Nodup
+    rw [set_ids]; exact hI.ids_nodup
+  · intro x hx
+    rcases mem_set hx with rfl | hx
+    · exact hevs
+    · exact hI.evs_nodup x hx
+  · intro x hx
+    rcases mem_set hx with rfl | hx
+    · exact hests
+    · exact hI.ests_nodup x hx
+  · intro x hx
+    rcases mem_set hx with rfl | hx
+    · exact hu
+    · exact hI.ests_u64 x hx
+  · intro d hd
+    have := hI.decl_gone d hd
+    refine ⟨this.1, ?_⟩
+    show get (set s.queue it') d.1 = none
+    rw [get_set]
+    split <;> simp [this.2]
+
+theorem inv_del {s : St} (hI : Inv s) (id : Nat) (decl : List (Nat × Nat × Bool))
+    (hdecl : decl = s.declared ∨ (∃ w b, decl = s.declared ++ [(id, w, b)] ∧ ∃ it, get s.queue id = some it)) :
+    Inv { s with queue := del s.queue id, declared := decl } := by
+  have hold : ∀ d ∈ s.declared, d.1 ≤ s.nextId ∧ get (del s.queue id) d.1 = none := by
+    intro d hd
+    have := hI.decl_gone d hd
+    refine ⟨this.1, ?_⟩
+    rw [get_del]; split <;> simp [this.2]
+  refine ⟨?_, del_ids_nodup id hI.ids_nodup, ?_, ?_, ?_, ?_, ?_⟩
+  · intro x hx; exact hI.ids_le x (mem_del hx).1
+  · intro x hx; exact hI.evs_nodup x (mem_del hx).1
+  · intro x hx; exact hI.ests_nodup x (mem_del hx).1
+  · intro x hx; exact hI.ests_u64 x (mem_del hx).1
+  · rcases hdecl with rfl | ⟨w, b, rfl, it, hg⟩
+    · exact hold
+    · intro d hd
+      rcases List.mem_append.mp hd with hd | hd
+      · exact hold d hd
+      · simp at hd; subst hd
+        have ⟨hmem, hid⟩ := get_some hg
+        refine ⟨by rw [← hid]; exact hI.ids_le it hmem, ?_⟩
+        show get (del s.queue id) id = none
+        rw [get_del]; simp
+  · rcases hdecl with rfl | ⟨w, b, rfl, it, hg⟩
+    · exact hI.decl_nodup
+    · show ((s.declared ++ [(id, w, b)]).map (·.1)).Nodup
+      simp only [List.map_append, List.map_cons, List.map_nil]
+      rw [List.nodup_append]
+      refine ⟨hI.decl_nodup, by simp, ?_⟩
+      intro a ha b' hb
+      simp at hb; subst hb
+      intro e; subst e
+      rcases List.mem_map.mp ha with ⟨d, hd, hd1⟩
+      have := (hI.decl_gone d hd).2
+      rw [hd1, hg] at this
+      cases this
+
+theorem inv_tr {s s' : St} {op : Op} (hI : Inv s) (ht : Tr s op s') : Inv s' := by
+  cases ht with
+  | same => exact hI
+  | snap sn => exact ⟨hI.ids_le, hI.ids_nodup, hI.evs_nodup, hI.ests_nodup, hI.ests_u64, hI.decl_gone, hI.decl_nodup⟩
+  | put req =>
+    refine ⟨?_, ?_, ?_, ?_, ?_, ?_, hI.decl_nodup⟩
+    · intro x hx
+      rcases List.mem_append.mp hx with hx | hx
+      · have := hI.ids_le x hx; show x.id ≤ s.nextId + 1; omega
+      · simp at hx; subst hx; exact Nat.le_refl _
+    · show (List.map (fun x : Item => x.id) (s.queue ++ [_])).Nodup
+      simp only [List.map_append, List.map_cons, List.map_nil]
+      rw [List.nodup_append]
+      refine ⟨hI.ids_nodup, by simp, ?_⟩
+      intro a ha b hb
+      simp at hb; subst hb
+      rcases List.mem_map.mp ha with ⟨x, hx, rfl⟩
+      have := hI.ids_le x hx
+      omega
+    · intro x hx
+      rcases List.mem_append.mp hx with hx | hx
+      · exact hI.evs_nodup x hx
+      · simp at hx; subst hx; simp
+    · intro x hx
+      rcases List.mem_append.mp hx with hx | hx
+      · exact hI.ests_nodup x hx
+      · simp at hx; subst hx; simp
+    · intro x hx
+      rcases List.mem_append.mp hx with hx | hx
+      · exact hI.ests_u64 x hx
+      · simp at hx; subst hx; simp
+    · intro d hd
+      have := hI.decl_gone d hd
+      refine ⟨by show d.1 ≤ s.nextId + 1; omega, ?_⟩
+      show get (s.queue ++ [_]) d.1 = none
+      rw [get_append_single, this.2]
+      have : ¬ s.nextId + 1 = d.1 := by omega
+      simp [this]
+  | ev id a h it hg =>
+    have ⟨hmem, _⟩ := get_some hg
+    exact inv_set hI id it _ hg rfl (addEvidence_keys_nodup _ _ (hI.evs_nodup it hmem))
+      (hI.ests_nodup it hmem) (hI.ests_u64 it hmem)
+  | est id a v it es hg hreq hv1 hv hadd =>
+    have ⟨hmem, _⟩ := get_some hg
+    have ⟨hnd, hes⟩ := addGasEstimate_nodup _ _ _ (hI.ests_nodup it hmem) hadd
+    refine inv_set hI id it _ hg rfl (hI.evs_nodup it hmem) hnd ?_
+    intro e he
+    rw [hes] at he
+    rcases List.mem_append.mp he with he | he
+    · exact hI.ests_u64 it hmem e he
+    · simp at he; subst he; exact ⟨hv1, hv⟩
+  | elect id g it hg hreq h0 hver =>
+    have ⟨hmem, _⟩ := get_some hg
+    exact inv_set hI id it _ hg rfl (hI.evs_nodup it hmem) (hI.ests_nodup it hmem) (hI.ests_u64 it hmem)
+  | attest id hint hard soft it ws hg hev hver hout =>
+    exact inv_del hI id _ (Or.inr ⟨_, _, rfl, it, hg⟩)
+  | prune id it hg =>
+    exact inv_del hI id _ (Or.inl rfl)
+
+theorem runFrom_append (s : St) (a b : List Op) : runFrom (runFrom s a) b = runFrom s (a ++ b) := by
+  unfold runFrom; rw [List.foldl_append]
+
+theorem run_snoc (ops : List Op) (op : Op) : run (ops ++ [op]) = apply (run ops) op := by
+  unfold run runFrom; rw [List.foldl_append]; rfl
+
+theorem run_append (a b : List Op) : run (a ++ b) = runFrom (run a) b := by
+  unfold run; rw [runFrom_append]
+
+theorem inv_runFrom (s : St) (hI : Inv s) (ops : List Op) : Inv (runFrom s ops) := by
+  induction ops generalizing s with
+  | nil => exact hI
+  | cons op ops ih => exact ih (apply s op) (inv_tr hI (step_tr s op))
+
+
+theorem snoc_ind {α : Type} {P : List α → Prop} (hnil : P [])
+    (hsnoc : ∀ l a, P l → P (l ++ [a])) (l : List α) : P l := by
+  have h : ∀ r : List α, P r.reverse := by
+    intro r
+    induction r with
+    | nil => simpa using hnil
+    | cons a r ih => simpa using hsnoc _ a ih
+  simpa using h l.reverse
+
+/-- frame: what a surviving (or fresh) item looks like after one operation -/
+theorem tr_frame {s s' : St} {op : Op} (ht : Tr s op s') (id : Nat) (it' : Item)
+    (hg' : get s'.queue id = some it') :
+    (∃ it, get s.queue id = some it ∧ it'.id = it.id ∧ it'.req = it.req ∧
+      (it'.evs = it.evs ∨ ∃ a h, op = .ev id a h ∧ it'.evs = addEvidence it.evs (a, h)) ∧
+      (it'.ests = it.ests ∨ ∃ a v, op = .est id a v ∧ it'.ests = it.ests ++ [(a, v)]) ∧
+      (it'.elected = it.elected ∨
+        (op = .elect id true ∧ it.elected = 0 ∧
+          verifyGasEstimates s.snap it.ests = .elected it'.elected)))
+    ∨ (∃ req, op = .put req ∧ id = s.nextId + 1 ∧ it' = { id := id, req := req }) := by
+  have hsame : ∀ it, get s.queue id = some it → it' = it →
+      (∃ it, get s.queue id = some it ∧ it'.id = it.id ∧ it'.req = it.req ∧
+      (it'.evs = it.evs ∨ ∃ a h, op = .ev id a h ∧ it'.evs = addEvidence it.evs (a, h)) ∧
+      (it'.ests = it.ests ∨ ∃ a v, op = .est id a v ∧ it'.ests = it.ests ++ [(a, v)]) ∧
+      (it'.elected = it.elected ∨
+        (op = .elect id true ∧ it.elected = 0 ∧
+          verifyGasEstimates s.snap it.ests = .elected it'.elected))) := by
+    intro it hg e; subst e
+    exact ⟨it', hg, rfl, rfl, Or.inl rfl, Or.inl rfl, Or.inl rfl⟩
+  cases ht with
+  | same => exact Or.inl (hsame it' hg' rfl)
+  | snap sn => exact Or.inl (hsame it' hg' rfl)
+  | put req =>
+    simp only [get_append_single] at hg'
+    rcases Option.eq_none_or_eq_some (get s.queue id) with hq | ⟨it, hq⟩
+    · rw [hq] at hg'
+      simp only at hg'
+      split at hg'
+      · rename_i hid
+        injection hg' with e
+        try simp only at hid
+        exact Or.inr ⟨req, rfl, hid.symm, by rw [← e, hid]⟩
+      · cases hg'
+    · rw [hq] at hg'; injection hg' with e
+      exact Or.inl (hsame it hq e.symm)
+  | ev id₀ a h it hg =>
+    have hid₀ := (get_some hg).2; subst hid₀
+    simp only [get_set] at hg'
+    split at hg'
+    · rename_i hid
+      try simp only at hid
+      subst hid
+      rw [hg] at hg'; simp only [Option.map_some] at hg'
+      injection hg' with e; subst e
+      exact Or.inl ⟨it, hg, rfl, rfl, Or.inr ⟨a, h, rfl, rfl⟩, Or.inl rfl, Or.inl rfl⟩
+    · exact Or.inl (hsame it' hg' rfl)
+  | est id₀ a v it es hg hreq hv1 hv hadd =>
+    have hid₀ := (get_some hg).2; subst hid₀
+    simp only [get_set] at hg'
+    split at hg'
+    · rename_i hid
+      try simp only at hid
+      subst hid
+      rw [hg] at hg'; simp only [Option.map_some] at hg'
+      injection hg' with e; subst e
+      have hes : es = it.ests ++ [(a, v)] := by
+        unfold addGasEstimate at hadd
+        split at hadd
+        · cases hadd
+        · injection hadd with e; exact e.symm
+      exact Or.inl ⟨it, hg, rfl, rfl, Or.inl rfl, Or.inr ⟨a, v, rfl, hes⟩, Or.inl rfl⟩
+    · exact Or.inl (hsame it' hg' rfl)
+  | elect id₀ g it hg hreq h0 hver =>
+    have hid₀ := (get_some hg).2; subst hid₀
+    simp only [get_set] at hg'
+    split at hg'
+    · rename_i hid
+      try simp only at hid
+      subst hid
+      rw [hg] at hg'; simp only [Option.map_some] at hg'
+      injection hg' with e; subst e
+      exact Or.inl ⟨it, hg, rfl, rfl, Or.inl rfl, Or.inl rfl, Or.inr ⟨rfl, h0, hver⟩⟩
+    · exact Or.inl (hsame it' hg' rfl)
+  | attest id₀ hint hard soft it ws hg hev hver hout =>
+    simp only [get_del] at hg'
+    split at hg'
+    · cases hg'
+    · exact Or.inl (hsame it' hg' rfl)
+  | prune id₀ it hg =>
+    simp only [get_del] at hg'
+    split at hg'
+    · cases hg'
+    · exact Or.inl (hsame it' hg' rfl)
+
+theorem inv_run (ops : List Op) : Inv (run ops) := inv_runFrom _ inv_init ops
+
+theorem tr_nextId_le {s s' : St} {op : Op} (ht : Tr s op s') : s.nextId ≤ s'.nextId := by
+  cases ht <;> simp
+
+/-- a removed (or never used, but already passed) id never shows up again -/
+theorem tr_gone {s s' : St} {op : Op} (_hI : Inv s) (ht : Tr s op s') (id : Nat)
+    (hle : id ≤ s.nextId) (hg : get s.queue id = none) : get s'.queue id = none := by
+  cases ht with
+  | same => exact hg
+  | snap sn => exact hg
+  | put req =>
+    show get (s.queue ++ [_]) id = none
+    rw [get_append_single, hg]
+    have : ¬ s.nextId + 1 = id := by omega
+    simp [this]
+  | ev id₀ a h it hg₀ => show get (set _ _) id = none; rw [get_set]; split <;> simp [hg]
+  | est id₀ a v it es hg₀ hreq hv1 hv hadd => show get (set _ _) id = none; rw [get_set]; split <;> simp [hg]
+  | elect id₀ g it hg₀ hreq h0 hver => show get (set _ _) id = none; rw [get_set]; split <;> simp [hg]
+  | attest id₀ hint hard soft it ws hg₀ hev hver hout => show get (del _ _) id = none; rw [get_del]; split <;> simp [hg]
+  | prune id₀ it hg₀ => show get (del _ _) id = none; rw [get_del]; split <;> simp [hg]
+
+theorem gone_forever (s : St) (hI : Inv s) (id : Nat) (hle : id ≤ s.nextId)
+    (hg : get s.queue id = none) (ops : List Op) : get (runFrom s ops).queue id = none := by
+  induction ops generalizing s with
+  | nil => exact hg
+  | cons op ops ih =>
+    have ht := step_tr s op
+    exact ih (apply s op) (inv_tr hI ht) (Nat.le_trans hle (tr_nextId_le ht)) (tr_gone hI ht id hle hg)
+
+theorem pickWinner_mem (ws : List Nat) (hint : Nat) (h : ws ≠ []) : pickWinner ws hint ∈ ws := by
+  unfold pickWinner
+  split
+  · rename_i hc; simpa using hc
+  · cases ws with
+    | nil => exact absurd rfl h
+    | cons w _ => simp
+
+/-- the quorum facts about a winning group `w` of evidence list `evs` under snapshot `sn` -/
+def GroupQuorum (sn : Snapshot) (evs : List Evidence) (w : Nat) : Prop :=
+  (evs.map (·.1)).Nodup ∧
+  (∃ ws, verifyEvidence sn evs = .winnerIn ws ∧ w ∈ ws) ∧
+  3 * snapPower sn (groupOf evs w) ≥ 2 * sn.total
+
+theorem groupQuorum_of_winner (sn : Snapshot) (evs : List Evidence) (ws : List Nat) (w : Nat)
+    (hnd : (evs.map (·.1)).Nodup) (hv : verifyEvidence sn evs = .winnerIn ws) (hw : w ∈ ws) :
+    GroupQuorum sn evs w := by
+  refine ⟨hnd, ⟨ws, hv, hw⟩, ?_⟩
+  have h2 := (winner_has_two_thirds_lem sn evs ws w hv hw).1
+  rw [shareSum_eq] at h2
+  have := sumOver_le_power sn.vals (groupOf evs w) (hnd.sublist (groupOf_sublist evs w))
+  unfold snapPower
+  omega
+
+
+/-- one step: a message that disappears was pruned (nothing declared) or attested with quorum
+    (and exactly its declaration is appended) -/
+theorem tr_removal {s s' : St} {op : Op} (hI : Inv s) (ht : Tr s op s') (id : Nat) (it : Item)
+    (hg : get s.queue id = some it) (hgone : get s'.queue id = none) :
+    (op = .prune id ∧ s'.declared = s.declared) ∨
+    (∃ hint hard soft w, op = .attest id hint hard soft ∧ outcomeOf hard soft w ≠ .hard ∧
+      GroupQuorum s.snap it.evs w ∧
+      s'.declared = s.declared ++ [(id, w, outcomeOf hard soft w == .soft)]) := by
+  have hcontra : get s.queue id = none → False := by intro e; rw [e] at hg; cases hg
+  cases ht with
+  | same => exact (hcontra hgone).elim
+  | snap sn => exact (hcontra hgone).elim
+  | put req =>
+    exfalso
+    have : get (s.queue ++ [_]) id = none := hgone
+    rw [get_append_single, hg] at this; cases this
+  | ev id₀ a h it₀ hg₀ =>
+    exfalso
+    have : get (set _ _) id = none := hgone
+    rw [get_set, hg] at this; split at this <;> cases this
+  | est id₀ a v it₀ es hg₀ hreq hv hadd =>
+    exfalso
+    have : get (set _ _) id = none := hgone
+    rw [get_set, hg] at this; split at this <;> cases this
+  | elect id₀ g it₀ hg₀ hreq h0 hver =>
+    exfalso
+    have : get (set _ _) id = none := hgone
+    rw [get_set, hg] at this; split at this <;> cases this
+  | attest id₀ hint hard soft it₀ ws hg₀ hev hver hout =>
+    have : get (del _ _) id = none := hgone
+    rw [get_del] at this
+    split at this
+    · rename_i hid; subst hid
+      rw [hg] at hg₀; injection hg₀ with e; subst e
+      have hws : ws ≠ [] := ((verifyEvidence_winnerIn_iff _ _ _).mp hver).2.2
+      exact Or.inr ⟨hint, hard, soft, pickWinner ws hint, rfl, hout,
+        groupQuorum_of_winner _ _ ws _ (hI.evs_nodup it (get_some hg).1) hver (pickWinner_mem ws hint hws), rfl⟩
+    · exact (hcontra this).elim
+  | prune id₀ it₀ hg₀ =>
+    have : get (del _ _) id = none := hgone
+    rw [get_del] at this
+    split at this
+    · rename_i hid; subst hid; exact Or.inl ⟨rfl, rfl⟩
+    · exact (hcontra this).elim
+
+/-- one step: the effect log only grows, by at most the declaration of an attested message
+    that had quorum and is removed by the same step -/
+theorem tr_declared {s s' : St} {op : Op} (hI : Inv s) (ht : Tr s op s') :
+    s'.declared = s.declared ∨
+    (∃ id hint hard soft w it, op = .attest id hint hard soft ∧ outcomeOf hard soft w ≠ .hard ∧
+      get s.queue id = some it ∧ GroupQuorum s.snap it.evs w ∧
+      s'.declared = s.declared ++ [(id, w, outcomeOf hard soft w == .soft)] ∧
+      get s'.queue id = none) := by
+  cases ht with
+  | attest id₀ hint hard soft it₀ ws hg₀ hev hver hout =>
+    have hws : ws ≠ [] := ((verifyEvidence_winnerIn_iff _ _ _).mp hver).2.2
+    refine Or.inr ⟨id₀, hint, hard, soft, pickWinner ws hint, it₀, rfl, hout, hg₀,
+      groupQuorum_of_winner _ _ ws _ (hI.evs_nodup it₀ (get_some hg₀).1) hver (pickWinner_mem ws hint hws), rfl, ?_⟩
+    show get (del _ _) id₀ = none
+    rw [get_del]; simp
+  | _ => exact Or.inl rfl
+
+/-- results after which something was written -/
+def Res.commits : Res → Bool
+  | .ok | .newId _ | .elected _ | .declared _ _ => true
+  | _ => false
+
+/-- what an elected value `g` means for the estimates `ests` under snapshot `sn` -/
+def EstQuorum (sn : Snapshot) (ests : List (Nat × Nat)) (g : Nat) : Prop :=
+  (ests.map (·.1)).Nodup ∧
+  verifyGasEstimates sn ests = .elected g ∧
+  3 * snapPower sn (ests.map (·.1)) ≥ 2 * sn.total ∧
+  g = median (ests.map (·.2)) ∧ g ≠ 0 ∧
+  (∃ a ∈ ests.map (·.2), ∃ b ∈ ests.map (·.2), a ≤ g ∧ g ≤ b) ∧
+  (ests.length ≤ 2 * (ests.map (·.2)).countP (fun x => decide (x ≤ g)) ∧
+   ests.length ≤ 2 * (ests.map (·.2)).countP (fun x => decide (g ≤ x)))
+
+theorem estQuorum_of_elected (sn : Snapshot) (ests : List (Nat × Nat)) (g : Nat)
+    (hnd : (ests.map (·.1)).Nodup) (hu : ∀ e ∈ ests, e.2 < U64)
+    (hv : verifyGasEstimates sn ests = .elected g) : EstQuorum sn ests g := by
+  have ⟨hq, hm, h0⟩ := estimate_needs_quorum_lem sn ests g hv
+  have hne : ests.map (·.2) ≠ [] := by
+    intro e
+    have : ests = [] := by simpa using e
+    subst this
+    simp [verifyGasEstimates, tally, foundShares, Power.consensus] at hv
+  have hb : ∀ x ∈ ests.map (·.2), x < U64 := by
+    intro x hx
+    rcases List.mem_map.mp hx with ⟨e, he, rfl⟩
+    exact hu e he
+  refine ⟨hnd, hv, ?_, hm, h0, ?_, ?_⟩
+  · rw [shareSum_eq] at hq
+    have := sumOver_le_power sn.vals (ests.map (·.1)) hnd
+    unfold snapPower; omega
+  · rw [hm]; exact median_in_range_lem _ hne hb
+  · have := median_half_lem _ hne hb
+    rw [hm]; simpa using this
+
+theorem tr_elected_stable {s s' : St} {op : Op} (ht : Tr s op s') (id : Nat) (it it' : Item)
+    (hg : get s.queue id = some it) (h0 : it.elected ≠ 0) (hg' : get s'.queue id = some it')
+    (hle : id ≤ s.nextId) : it'.elected = it.elected := by
+  rcases tr_frame ht id it' hg' with ⟨it₀, hg₀, _, _, _, _, hel⟩ | ⟨req, hop, hid, hit⟩
+  · rw [hg] at hg₀; injection hg₀ with e; subst e
+    rcases hel with hel | ⟨_, hz, _⟩
+    · exact hel
+    · exact absurd hz h0
+  · omega
+
+theorem elected_never_changes_from (s : St) (hI : Inv s) (id : Nat) (it : Item)
+    (hg : get s.queue id = some it) (h0 : it.elected ≠ 0) (post : List Op) (it' : Item)
+    (hg' : get (runFrom s post).queue id = some it') : it'.elected = it.elected := by
+  induction post generalizing s it with
+  | nil =>
+    have : get s.queue id = some it' := hg'
+    rw [hg] at this; injection this with e; rw [← e]
+  | cons op post ih =>
+    have ht := step_tr s op
+    have hle : id ≤ s.nextId := by
+      have := hI.ids_le it (get_some hg).1
+      rw [(get_some hg).2] at this; exact this
+    rcases Option.eq_none_or_eq_some (get (apply s op).queue id) with hn | ⟨it₁, hs⟩
+    · exfalso
+      have := gone_forever (apply s op) (inv_tr hI ht) id (Nat.le_trans hle (tr_nextId_le ht)) hn post
+      have hg'' : get (runFrom (apply s op) post).queue id = some it' := hg'
+      rw [this] at hg''; cases hg''
+    · have h1 := tr_elected_stable ht id it it₁ hg h0 hs hle
+      have := ih (apply s op) (inv_tr hI ht) it₁ hs (by rw [h1]; exact h0) hg'
+      rw [this, h1]
+
+theorem traceFrom_append (s : St) (a b : List Op) :
+    traceFrom s (a ++ b) = traceFrom s a ++ traceFrom (runFrom s a) b := by
+  induction a generalizing s with
+  | nil => rfl
+  | cons op ops ih =>
+    simp only [List.cons_append, traceFrom, ih, runFrom, List.foldl_cons]
+
+theorem length_traceFrom (s : St) (ops : List Op) : (traceFrom s ops).length = ops.length := by
+  induction ops generalizing s with
+  | nil => rfl
+  | cons op ops ih => simp [traceFrom, ih]
+
+theorem trace_snoc (ops : List Op) (op : Op) :
+    trace (ops ++ [op]) = trace ops ++ [(step (run ops) op).2] := by
+  unfold trace run
+  rw [traceFrom_append]; rfl
+
+/-- the submission carried by an evidence operation for message `id` that was answered `ok` -/
+def pickEv (id : Nat) (p : Op × Res) : Option Evidence :=
+  match p.1, p.2 with
+  | .ev i a h, .ok => if i = id then some (a, h) else none
+  | _, _ => none
+
+/-- the accepted evidence submissions for message `id`, in order: a function of the history and
+    of the answers it got -/
+def accepted (ops : List Op) (id : Nat) : List Evidence :=
+  (ops.zip (trace ops)).filterMap (pickEv id)
+
+theorem accepted_snoc (ops : List Op) (op : Op) (id : Nat) :
+    accepted (ops ++ [op]) id =
+      accepted ops id ++ (match pickEv id (op, (step (run ops) op).2) with
+                          | some e => [e] | none => []) := by
+  unfold accepted
+  rw [trace_snoc, List.zip_append (by unfold trace; rw [length_traceFrom]), List.filterMap_append]
+  congr 1
+  simp only [List.zip_cons_cons, List.zip_nil_right, List.filterMap_cons, List.filterMap_nil]
+  cases pickEv id (op, (step (run ops) op).2) <;> rfl
+
+theorem stored_evidence_aux (ops : List Op) :
+    (∀ id, (run ops).nextId < id → accepted ops id = []) ∧
+    (∀ id it, get (run ops).queue id = some it →
+      it.evs = (accepted ops id).foldl addEvidence []) := by
+  induction ops using snoc_ind with
+  | hnil =>
+    refine ⟨fun id _ => rfl, ?_⟩
+    intro id it h; simp [run, runFrom, St.init, get] at h
+  | hsnoc ops op ih =>
+    obtain ⟨ih1, ih2⟩ := ih
+    have hI := inv_run ops
+    have ht := step_tr (run ops) op
+    have hrs := run_snoc ops op
+    -- the new accepted entry, if any
+    have hpick : ∀ id e, pickEv id (op, (step (run ops) op).2) = some e →
+        ∃ a h it₀, op = .ev id a h ∧ e = (a, h) ∧ get (run ops).queue id = some it₀ := by
+      intro id e hp
+      cases op with
+      | ev i a h =>
+        simp only [pickEv, step, evStep] at hp
+        rcases Option.eq_none_or_eq_some (get (run ops).queue i) with hn | ⟨it₀, hs⟩
+        · simp [hn] at hp
+        · simp only [hs] at hp
+          split at hp
+          · rename_i hi; subst hi; injection hp with hp
+            exact ⟨a, h, it₀, rfl, hp.symm, hs⟩
+          · cases hp
+      | _ => simp [pickEv] at hp
+    refine ⟨?_, ?_⟩
+    · intro id hlt
+      rw [hrs] at hlt
+      have hlt' : (run ops).nextId < id := Nat.lt_of_le_of_lt (tr_nextId_le ht) hlt
+      rw [accepted_snoc, ih1 id hlt']
+      rcases Option.eq_none_or_eq_some (pickEv id (op, (step (run ops) op).2)) with hn | ⟨e, hs⟩
+      · simp [hn]
+      · exfalso
+        obtain ⟨a, h, it₀, _, _, hg⟩ := hpick id e hs
+        have := hI.ids_le it₀ (get_some hg).1
+        rw [(get_some hg).2] at this
+        omega
+    · intro id it' hg'
+      rw [hrs] at hg'
+      rw [accepted_snoc]
+      rcases Option.eq_none_or_eq_some (pickEv id (op, (step (run ops) op).2)) with hn | ⟨e, hs⟩
+      · -- no new accepted submission for `id`: the evidence of `id` is unchanged (or `id` is fresh)
+        simp only [hn, List.append_nil]
+        rcases tr_frame ht id it' hg' with ⟨it₀, hg₀, _, _, hevs, _, _⟩ | ⟨req, hop, hid, hit⟩
+        · rcases hevs with hevs | ⟨a, h, hop, _⟩
+          · rw [hevs]; exact ih2 id it₀ hg₀
+          · exfalso
+            subst hop
+            simp [pickEv, step, evStep, hg₀] at hn
+        · rw [hit, ih1 id (by omega)]; rfl
+      · obtain ⟨a, h, it₀, hop, he, hg₀⟩ := hpick id e hs
+        subst hop; subst he
+        simp only [hs, List.foldl_append, List.foldl_cons, List.foldl_nil]
+        rw [← ih2 id it₀ hg₀]
+        have : apply (run ops) (.ev id a h) =
+            { run ops with queue := set (run ops).queue { it₀ with evs := addEvidence it₀.evs (a, h) } } := by
+          simp [apply, step, evStep, hg₀]
+        rw [this] at hg'
+        simp only [get_set] at hg'
+        rw [hg₀] at hg'
+        have hid := (get_some hg₀).2
+        simp [hid] at hg'
+        rw [← hg']
+
+theorem pickEv_step_iff (s : St) (op : Op) (id : Nat) (e : Evidence) :
+    pickEv id (op, (step s op).2) = some e ↔
+      op = .ev id e.1 e.2 ∧ ∃ it₀, get s.queue id = some it₀ := by
+  cases op with
+  | ev i a h =>
+    simp only [pickEv, step, evStep]
+    rcases Option.eq_none_or_eq_some (get s.queue i) with hn | ⟨it₀, hs⟩
+    · simp only [hn]
+      constructor
+      · intro hh; cases hh
+      · rintro ⟨hop, it₀, hg⟩
+        injection hop with h1 h2 h3; subst h1
+        rw [hn] at hg; cases hg
+    · simp only [hs]
+      constructor
+      · intro hp
+        split at hp
+        · rename_i hi; subst hi; injection hp with hp
+          subst hp; exact ⟨rfl, it₀, hs⟩
+        · cases hp
+      · rintro ⟨hop, _⟩
+        injection hop with h1 h2 h3; subst h1; subst h2; subst h3
+        simp
+  | snap _ => simp [pickEv]
+  | put _ => simp [pickEv]
+  | est _ _ _ => simp [pickEv]
+  | elect _ _ => simp [pickEv]
+  | attest _ _ _ _ => simp [pickEv]
+  | prune _ => simp [pickEv]
+
+theorem pickWinner_singleton (w hint : Nat) : pickWinner [w] hint = w := by
+  unfold pickWinner
+  by_cases h : hint = w
+  · simp [h]
+  · simp [h]
+
+theorem snapOK_run (ops : List Op) (h : ∀ sn, Op.snap sn ∈ ops → SnapOK sn) : SnapOK (run ops).snap := by
+  induction ops using snoc_ind with
+  | hnil => left; rfl
+  | hsnoc ops op ih =>
+    have ih' := ih (fun sn hsn => h sn (List.mem_append.mpr (Or.inl hsn)))
+    have ht := step_tr (run ops) op
+    rw [← run_snoc] at ht
+    generalize run (ops ++ [op]) = s' at ht
+    cases ht with
+    | snap sn => exact h sn (by simp)
+    | _ => exact ih'
+
+end Hist
+
+end Lemmas
+
+/-! ## Property theorems (C04) -/
+
+/-- **winner_has_two_thirds.** If `VerifyEvidence` can return hash `h` as winner, the snapshot
+validators that supplied evidence with exactly that hash hold at least 2/3 of the snapshot
+total; validators outside the snapshot contribute nothing (`share? = none ↦ 0`). -/
+theorem winner_has_two_thirds (s : Snapshot) (evs : List Evidence) (ws : List Nat) (h : Nat)
+    (hv : verifyEvidence s evs = .winnerIn ws) (hh : h ∈ ws) :
+    3 * shareSum s (groupOf evs h) ≥ 2 * s.total ∧
+    (∀ a ∈ groupOf evs h, (a, h) ∈ evs) :=
+  winner_has_two_thirds_lem s evs ws h hv hh
+
+/-- **winner_iff_quorum** (soundness *and* completeness of `VerifyEvidence`). Hash `h` is among the
+groups `VerifyEvidence` may return **iff** the group of `h` passes `consensusPower.consensus`; the
+all-evidence pre-check never refuses a group that has quorum on its own. -/
+theorem winner_iff_quorum (s : Snapshot) (evs : List Evidence) (h : Nat) :
+    (∃ ws, verifyEvidence s evs = .winnerIn ws ∧ h ∈ ws) ↔
+      (tally s (groupOf evs h)).consensus = true := by
+  constructor
+  · rintro ⟨ws, hv, hh⟩
+    obtain ⟨_, rfl, _⟩ := (verifyEvidence_winnerIn_iff s evs ws).mp hv
+    exact mem_winners hh
+  · intro hc
+    refine ⟨winners s evs, ?_, ?_⟩
+    · have hmem : h ∈ winners s evs := by
+        unfold winners
+        obtain ⟨a, ha⟩ := group_nonempty_of_consensus hc
+        exact List.mem_filter.mpr ⟨mem_hashes.mpr ⟨a, mem_groupOf.mp ha⟩, hc⟩
+      exact (verifyEvidence_winnerIn_iff s evs _).mpr
+        ⟨group_consensus_overall s evs h hc, rfl, List.ne_nil_of_mem hmem⟩
+    · unfold winners
+      obtain ⟨a, ha⟩ := group_nonempty_of_consensus hc
+      exact List.mem_filter.mpr ⟨mem_hashes.mpr ⟨a, mem_groupOf.mp ha⟩, hc⟩
+
+/-- **winner_counts_each_validator_once** (the combined theorem). With one evidence entry per
+validator (`addEvidence_unique`; an invariant of every reachable queue, `reachable_each_validator_once`),
+a returned winner `w` has at least 2/3 of the snapshot total **counted from the snapshot side**:
+`snapPower` sums the share of every snapshot entry whose address supplied exactly that hash — each
+validator at most once, validators outside the snapshot nothing. -/
+theorem winner_counts_each_validator_once (sn : Snapshot) (evs : List Evidence) (ws : List Nat) (w : Nat)
+    (hnd : (evs.map (·.1)).Nodup) (hv : verifyEvidence sn evs = .winnerIn ws) (hw : w ∈ ws) :
+    3 * snapPower sn (groupOf evs w) ≥ 2 * sn.total ∧ ∀ a, a ∈ groupOf evs w ↔ (a, w) ∈ evs :=
+  ⟨(Hist.groupQuorum_of_winner sn evs ws w hnd hv hw).2.2, fun _ => mem_groupOf⟩
+
+/-- **quorum_group_wins** (completeness, snapshot side). If the snapshot lists every address once,
+every validator has one evidence entry, at least one supporter of `h` is in the snapshot (Go's
+zero-value `runningSum` refuses an empty tally even when the total is 0) and the supporters of `h`
+hold 2/3 of the total, then `VerifyEvidence` returns `h`. -/
+theorem quorum_group_wins (s : Snapshot) (evs : List Evidence) (h : Nat)
+    (hs : (s.vals.map (·.1)).Nodup) (hnd : (evs.map (·.1)).Nodup)
+    (hin : ∃ a, (a, h) ∈ evs ∧ s.share? a ≠ none)
+    (hq : 3 * snapPower s (groupOf evs h) ≥ 2 * s.total) :
+    ∃ ws, verifyEvidence s evs = .winnerIn ws ∧ h ∈ ws := by
+  apply (winner_iff_quorum s evs h).mpr
+  apply (consensus_iff s _).mpr
+  refine ⟨?_, ?_⟩
+  · apply (foundShares_ne_nil_iff s _).mpr
+    obtain ⟨a, ha, hsa⟩ := hin
+    exact ⟨a, mem_groupOf.mpr ha, hsa⟩
+  · rw [shareSum_eq_snapPower s hs _ (hnd.sublist (groupOf_sublist evs h))]
+    exact hq
+
+/-- **outsiders_contribute_nothing.** Submitters that are not in the snapshot do not change the
+power of a group. -/
+theorem outsiders_contribute_nothing (s : Snapshot) (grp out : List Nat) (ho : ∀ a ∈ out, s.share? a = none) :
+    snapPower s (grp ++ out) = snapPower s grp := by
+  unfold snapPower
+  congr 2
+  apply List.filter_congr
+  intro v hv
+  have hnot : ¬ v.1 ∈ out := by
+    intro hm
+    have := ho v.1 hm
+    have hfound := lookup_ne_none_of_mem s.vals v hv
+    exact hfound this
+  simp [hnot]
+
+/-- **winner_unique.** With one evidence entry per validator (what `AddEvidence` maintains, see
+`addEvidence_unique` / `reachable_each_validator_once`), at most one hash group has quorum, so the result
+does not depend on Go's map order. ASSUMPTIONS on the snapshot (both external — `createNewSnapshot`,
+C10): `htot` the total is at least the sum of the listed shares, `hpos` the total is positive. Both are
+necessary: `winner_unique_needs_assumptions`. -/
 theorem winner_unique (s : Snapshot) (evs : List Evidence)
     (hnd : (evs.map (·.1)).Nodup)
     (htot : (s.vals.map (·.2)).sum ≤ s.total) (hpos : 0 < s.total)
@@ -265,6 +1627,23 @@ theorem winner_unique (s : Snapshot) (evs : List Evidence)
     have hle := sumOver_le_total s.vals _ hdis
     rw [sumOver_append, ← shareSum_eq, ← shareSum_eq] at hle
     omega
+
+/-- Neither snapshot assumption of `winner_unique` can be dropped: with total 0 (and zero shares) or
+with a total smaller than the sum of the shares two disjoint groups both pass `3*sum >= 2*total`. -/
+theorem winner_unique_needs_assumptions :
+    winners ⟨[(1,0),(2,0)], 0⟩ [(1,7),(2,8)] = [7, 8] ∧
+    winners ⟨[(1,5),(2,5)], 6⟩ [(1,7),(2,8)] = [7, 8] := by decide
+
+/-- **winners_at_most_one.** For a snapshot as the valset keeper builds it (`SnapOK`: empty, or
+positive total ≥ sum of shares) and one entry per validator there is at most one quorum group. -/
+theorem winners_at_most_one (s : Snapshot) (evs : List Evidence) (hs : SnapOK s)
+    (hnd : (evs.map (·.1)).Nodup) : (winners s evs).length ≤ 1 := by
+  rcases hs with hs | ⟨htot, hpos⟩
+  · rw [winners_nil_of_no_vals s evs hs]; simp
+  · apply nodup_all_eq_length_le_one
+    · unfold winners; exact (hashes_nodup evs).sublist List.filter_sublist
+    · intro a ha b hb
+      exact winner_unique s evs hnd htot hpos a b ha hb
 
 /-- **quorum_as_in_source.** `consensusPower.consensus` in the current source is
 `3 * sum >= 2 * total` (factors and comparator regenerated by the extractor on every run). -/
@@ -303,7 +1682,8 @@ theorem addEvidence_unique (subs : List Evidence) :
       simp at hb; subst hb
       intro e'; subst e'; exact hnot ha
 
-/-- **addEvidence_latest.** The stored proof of a validator is its latest submission. -/
+/-- **addEvidence_latest.** One step: the submitted entry is stored (history form:
+`addEvidence_stored_is_last`, `Hist.stored_evidence_is_latest`). -/
 theorem addEvidence_latest (evs : List Evidence) (e : Evidence) : e ∈ addEvidence evs e := by
   induction evs with
   | nil => simp [addEvidence]
@@ -313,29 +1693,101 @@ theorem addEvidence_latest (evs : List Evidence) (e : Evidence) : e ∈ addEvide
     · simp [hx]
     · simp [hx, ih]
 
+/-- **addEvidence_stored_is_last** ("its latest submission", over any submission history). After
+any sequence of `AddEvidence` calls the proof stored for validator `a` is the one of `a`'s **last**
+submission (`lastSub`, characterised by `lastSub_spec` / `lastSub_none`), and `(a, h)` is stored iff that
+last submission carried `h`. -/
+theorem addEvidence_stored_is_last (subs : List Evidence) (a : Nat) :
+    lookup (subs.foldl addEvidence []) a = lastSub subs a ∧
+    ∀ h, (a, h) ∈ subs.foldl addEvidence [] ↔ lastSub subs a = some h := by
+  have h1 : lookup (subs.foldl addEvidence []) a = lastSub subs a := by
+    rw [lookup_foldl_addEvidence]; rfl
+  refine ⟨h1, ?_⟩
+  intro h
+  rw [mem_iff_lookup _ (addEvidence_unique subs), h1]
+
+/-- `lastSub` really is the last submission: the one after which `a` did not submit again. -/
+theorem lastSub_spec (pre post : List Evidence) (a h : Nat) (hpost : ∀ e ∈ post, e.1 ≠ a) :
+    lastSub (pre ++ (a, h) :: post) a = some h := by
+  rw [lastSub_append]
+  simp only [List.foldl_cons, if_true]
+  exact foldl_keep post a _ hpost
+
+/-- `lastSub` is `none` exactly when `a` never submitted. -/
+theorem lastSub_none (subs : List Evidence) (a : Nat) :
+    lastSub subs a = none ↔ ∀ e ∈ subs, e.1 ≠ a := by
+  induction subs using Hist.snoc_ind with
+  | hnil => simp [lastSub]
+  | hsnoc l e ih =>
+    rw [lastSub_append]
+    simp only [List.foldl_cons, List.foldl_nil, List.mem_append, List.mem_singleton]
+    by_cases he : e.1 = a
+    · simp only [he, if_true, reduceCtorEq, false_iff]
+      intro hh; exact hh e (Or.inr rfl) he
+    · simp only [he, if_false, ih]
+      constructor
+      · intro hh x hx
+        rcases hx with hx | hx
+        · exact hh x hx
+        · subst hx; exact he
+      · intro hh x hx; exact hh x (Or.inl hx)
+
 /-- **median_in_range.** For a non-empty multiset of `uint64` values, the value `Median`
 returns lies between two submitted values (hence between the lowest and the highest). -/
 theorem median_in_range (l : List Nat) (hne : l ≠ []) (hb : ∀ x ∈ l, x < U64) :
-    ∃ a ∈ l, ∃ b ∈ l, a ≤ median l ∧ median l ≤ b := by
-  have hlen : 0 < l.length := List.length_pos_iff.mpr hne
-  have hsl := length_sortAsc l
-  unfold median medianWith
-  simp only [show ¬ l.length < 1 by omega, if_false]
-  split
-  · rename_i heven
-    have heven' : (sortAsc l).length % 2 = 0 := by simpa using heven
-    have hc : (sortAsc l).length / 2 < (sortAsc l).length := by omega
-    have hc1 : (sortAsc l).length / 2 - 1 < (sortAsc l).length := by omega
-    have hlo := getD_mem (sortAsc l) _ hc1
-    have hhi := getD_mem (sortAsc l) _ hc
-    have hle := ascending_getD_le (sortAsc l) (ascending_sortAsc l) ((sortAsc l).length / 2 - 1)
+    ∃ a ∈ l, ∃ b ∈ l, a ≤ median l ∧ median l ≤ b :=
+  median_in_range_lem l hne hb
+
+/-- **median_between_min_max.** … hence between any lower and upper bound of the submitted values
+("lies between the lowest and highest submitted value"). -/
+theorem median_between_min_max (l : List Nat) (hne : l ≠ []) (hb : ∀ x ∈ l, x < U64) (lo hi : Nat)
+    (hlo : ∀ x ∈ l, lo ≤ x) (hhi : ∀ x ∈ l, x ≤ hi) : lo ≤ median l ∧ median l ≤ hi := by
+  obtain ⟨a, ha, b, hb', h1, h2⟩ := median_in_range l hne hb
+  exact ⟨Nat.le_trans (hlo a ha) h1, Nat.le_trans h2 (hhi b hb')⟩
+
+/-- **median_is_median** ("it is their median", exact). `Median` returns, for the ascending
+rearrangement `w` of the submitted values (a permutation of them), the middle element when the count
+is odd and `⌊(w[n/2-1] + w[n/2]) / 2⌋` — computed without wrap-around — when it is even. Indexing is
+in range (`[i]? = some _`), no default value is involved. -/
+theorem median_is_median (l : List Nat) (hne : l ≠ []) (hb : ∀ x ∈ l, x < U64) :
+    ∃ w : List Nat, w.Perm l ∧ Ascending w ∧
+      (w.length % 2 = 1 → w[w.length / 2]? = some (median l)) ∧
+      (w.length % 2 = 0 → ∃ lo hi, w[w.length / 2 - 1]? = some lo ∧ w[w.length / 2]? = some hi ∧
+          lo ≤ hi ∧ median l = (lo + hi) / 2) := by
+  obtain ⟨hc, hodd, heven⟩ := median_cases l hne
+  refine ⟨sortAsc l, sortAsc_perm l, ascending_sortAsc l, ?_, ?_⟩
+  · intro h; rw [hodd h]; exact List.getElem?_eq_getElem hc
+  · intro h
+    obtain ⟨hc1, hm⟩ := heven h
+    have hle := ascending_getElem_le (sortAsc l) (ascending_sortAsc l) ((sortAsc l).length / 2 - 1)
       ((sortAsc l).length / 2) (by omega) hc
-    have hbound := hb _ (mem_sortAsc.mp hhi)
-    have := midpoint_between _ _ hle hbound
-    exact ⟨_, mem_sortAsc.mp hlo, _, mem_sortAsc.mp hhi, this.1, this.2⟩
-  · have hc : (sortAsc l).length / 2 < (sortAsc l).length := by omega
-    have hm := getD_mem (sortAsc l) _ hc
-    exact ⟨_, mem_sortAsc.mp hm, _, mem_sortAsc.mp hm, Nat.le_refl _, Nat.le_refl _⟩
+    have hbound := hb _ (mem_sortAsc.mp (List.getElem_mem hc))
+    refine ⟨_, _, List.getElem?_eq_getElem hc1, List.getElem?_eq_getElem hc, hle, ?_⟩
+    rw [hm, midpoint_eq _ _ hle hbound]
+
+/-- **median_half.** At least half of the submitted values are ≤ the median and at least half are ≥ it. -/
+theorem median_half (l : List Nat) (hne : l ≠ []) (hb : ∀ x ∈ l, x < U64) :
+    l.length ≤ 2 * l.countP (fun x => decide (x ≤ median l)) ∧
+    l.length ≤ 2 * l.countP (fun x => decide (median l ≤ x)) := by
+  obtain ⟨hc, hodd, heven⟩ := median_cases l hne
+  have hperm := sortAsc_perm l
+  have hasc := ascending_sortAsc l
+  have hsl : (sortAsc l).length = l.length := length_sortAsc l
+  rw [← hperm.countP_eq, ← hperm.countP_eq]
+  rcases Nat.mod_two_eq_zero_or_one (sortAsc l).length with h0 | h1
+  · obtain ⟨hc1, hm⟩ := heven h0
+    have hle := ascending_getElem_le (sortAsc l) hasc ((sortAsc l).length / 2 - 1)
+      ((sortAsc l).length / 2) (by omega) hc
+    have hbound := hb _ (mem_sortAsc.mp (List.getElem_mem hc))
+    have hmid := midpoint_between _ _ hle hbound
+    rw [← hm] at hmid
+    have h1 := count_le_sorted (sortAsc l) hasc _ hc1 (median l) hmid.1
+    have h2 := count_ge_sorted (sortAsc l) hasc _ hc (median l) hmid.2
+    omega
+  · have hm := hodd h1
+    have h1' := count_le_sorted (sortAsc l) hasc _ hc (median l) (by rw [hm]; exact Nat.le_refl _)
+    have h2 := count_ge_sorted (sortAsc l) hasc _ hc (median l) (by rw [hm]; exact Nat.le_refl _)
+    omega
 
 /-- The pre-repair midpoint `(w[c-1]+w[c])/2` on `uint64` is *not* within range:
     `{2^63+1, 2^63+3}` ↦ 2 (the defect repaired by the `fix:` commit). -/
@@ -345,26 +1797,26 @@ theorem medianWrapping_out_of_range :
 /-- **estimate_needs_quorum.** An elected value implies 2/3 of snapshot shares submitted. -/
 theorem estimate_needs_quorum (s : Snapshot) (ests : List (Nat × Nat)) (v : Nat)
     (h : verifyGasEstimates s ests = .elected v) :
-    3 * shareSum s (ests.map (·.1)) ≥ 2 * s.total ∧ v = median (ests.map (·.2)) ∧ v ≠ 0 := by
-  unfold verifyGasEstimates at h
-  split at h
-  · cases h
-  · rename_i hc
-    have hc' : (tally s (ests.map (·.1))).consensus = true := by simpa using hc
-    simp only at h
-    split at h
-    · cases h
-    · rename_i hz
-      injection h with h
-      refine ⟨((consensus_iff s _).mp hc').2, h.symm, ?_⟩
-      subst h; simpa using hz
+    3 * shareSum s (ests.map (·.1)) ≥ 2 * s.total ∧ v = median (ests.map (·.2)) ∧ v ≠ 0 :=
+  estimate_needs_quorum_lem s ests v h
 
-/-- **elected_immutable.** Once an estimate is elected (non-zero — `VerifyGasEstimates`
-never yields 0), `SetElectedGasEstimate` refuses every later value. -/
+/-- **estimate_elected_spec** (the combined theorem for gas estimates). With one estimate per validator
+and `uint64` values (invariants of every reachable queue, `reachable_each_validator_once`), an elected
+value `g` means (`EstQuorum`): the submitters that are in the snapshot hold 2/3 of its total, each
+counted once from the snapshot side; `g` is the median of all submitted values, non-zero, between two
+submitted values, with at least half of the values on either side. -/
+theorem estimate_elected_spec (sn : Snapshot) (ests : List (Nat × Nat)) (g : Nat)
+    (hnd : (ests.map (·.1)).Nodup) (hu : ∀ e ∈ ests, e.2 < U64)
+    (hv : verifyGasEstimates sn ests = .elected g) : Hist.EstQuorum sn ests g :=
+  Hist.estQuorum_of_elected sn ests g hnd hu hv
+
+/-- **elected_immutable** (the guard of `Queue.SetElectedGasEstimate`, one call; the history form is
+`Hist.elected_never_changes` / `Hist.elected_changes_only_by_election`). -/
 theorem elected_immutable (cur new : Nat) (h : cur ≠ 0) : setElected cur new = none := by
   simp [setElected, h]
 
-/-- **one_estimate_per_validator.** `AddGasEstimate` keeps submitters distinct. -/
+/-- **one_estimate_per_validator** (`AddGasEstimate`, one call; lifted to all histories by
+`Hist.reachable_each_validator_once`). -/
 theorem one_estimate_per_validator (ests ests' : List (Nat × Nat)) (e : Nat × Nat)
     (hnd : (ests.map (·.1)).Nodup) (h : addGasEstimate ests e = some ests') :
     (ests'.map (·.1)).Nodup := by
@@ -383,10 +1835,427 @@ theorem one_estimate_per_validator (ests ests' : List (Nat × Nat)) (e : Nat × 
     rcases List.mem_map.mp ha with ⟨x, hx, hx1⟩
     exact List.any_eq_true.mpr ⟨x, hx, by simp [hx1]⟩
 
+/-! ### history level (`Hist.run ops` from `Hist.St.init`) -/
+
+namespace Hist
+
+/-- **reachable_each_validator_once** ("counting each validator once", all histories). In every
+reachable state every queued message has at most one evidence entry and at most one gas estimate per
+validator, and every stored estimate is at least 1 and fits `uint64`. -/
+theorem reachable_each_validator_once (ops : List Op) (it : Item) (h : it ∈ (run ops).queue) :
+    (it.evs.map (·.1)).Nodup ∧ (it.ests.map (·.1)).Nodup ∧ (∀ e ∈ it.ests, 1 ≤ e.2 ∧ e.2 < U64) :=
+  ⟨(inv_run ops).evs_nodup it h, (inv_run ops).ests_nodup it h, (inv_run ops).ests_u64 it h⟩
+
+/-- **stored_evidence_is_latest** ("its latest submission", all histories). The evidence stored with a
+queued message is the `AddEvidence` fold of the submissions accepted for it (`accepted`, a function of
+the operations and their answers, tied to the operation list by `accepted_spec`); hence for every
+validator the stored proof is that of its last accepted submission. -/
+theorem stored_evidence_is_latest (ops : List Op) (id : Nat) (it : Item)
+    (hg : get (run ops).queue id = some it) :
+    it.evs = (accepted ops id).foldl addEvidence [] ∧
+    ∀ a, lookup it.evs a = lastSub (accepted ops id) a ∧
+      ∀ h, (a, h) ∈ it.evs ↔ lastSub (accepted ops id) a = some h := by
+  have h1 := (stored_evidence_aux ops).2 id it hg
+  refine ⟨h1, ?_⟩
+  intro a
+  rw [h1]
+  exact addEvidence_stored_is_last (accepted ops id) a
+
+/-- `accepted ops id` are exactly the evidence operations for `id` issued while `id` was queued. -/
+theorem accepted_spec (ops : List Op) (id : Nat) (e : Evidence) :
+    e ∈ accepted ops id ↔
+      ∃ pre post it₀, ops = pre ++ .ev id e.1 e.2 :: post ∧ get (run pre).queue id = some it₀ := by
+  induction ops using snoc_ind with
+  | hnil =>
+    simp only [accepted, trace, traceFrom, List.zip_nil_left, List.filterMap_nil, List.not_mem_nil, false_iff]
+    rintro ⟨pre, post, _, h, _⟩
+    cases pre <;> cases h
+  | hsnoc ops op ih =>
+    rw [accepted_snoc, List.mem_append, ih]
+    constructor
+    · rintro (⟨pre, post, it₀, hops, hg⟩ | hnew)
+      · exact ⟨pre, post ++ [op], it₀, by rw [hops]; simp, hg⟩
+      · rcases Option.eq_none_or_eq_some (pickEv id (op, (step (run ops) op).2)) with hn | ⟨e', hs⟩
+        · rw [hn] at hnew; cases hnew
+        · rw [hs] at hnew
+          simp at hnew; subst hnew
+          obtain ⟨hop, it₀, hg⟩ := (pickEv_step_iff _ _ _ _).mp hs
+          exact ⟨ops, [], it₀, by rw [hop], hg⟩
+    · rintro ⟨pre, post, it₀, hops, hg⟩
+      rcases List.eq_nil_or_concat post with hp | ⟨post', x, hp⟩
+      · subst hp
+        right
+        have h1 : ops = pre ∧ op = .ev id e.1 e.2 := by
+          have := List.append_inj' hops (by simp)
+          exact ⟨this.1, by simpa using this.2⟩
+        obtain ⟨h1, h2⟩ := h1
+        subst h1
+        have := (pickEv_step_iff (run ops) op id e).mpr ⟨h2, it₀, hg⟩
+        rw [this]; simp
+      · left
+        subst hp
+        have : ops ++ [op] = (pre ++ .ev id e.1 e.2 :: post') ++ [x] := by
+          rw [hops]; simp
+        have h1 := List.append_inj' this (by simp)
+        exact ⟨pre, post', it₀, h1.1, hg⟩
+
+/-- **declared_has_quorum** ("declared … when 2/3 supplied identical evidence", provenance over all
+histories). Every entry `(id, w, soft)` of the effect log was written by an `attest` step for `id` whose
+attester did not fail hard, taken in a state where `id` was queued and its evidence — one entry per
+validator — had `w` among `VerifyEvidence`'s winners with 2/3 of the **then current** snapshot total
+counted once per validator from the snapshot side (`GroupQuorum`); that same step appended exactly this
+entry and removed the message. -/
+theorem declared_has_quorum (ops : List Op) (d : Nat × Nat × Bool) (hd : d ∈ (run ops).declared) :
+    ∃ pre post hint hard soft it, ops = pre ++ .attest d.1 hint hard soft :: post ∧
+      outcomeOf hard soft d.2.1 ≠ .hard ∧
+      d.2.2 = (outcomeOf hard soft d.2.1 == .soft) ∧ get (run pre).queue d.1 = some it ∧
+      GroupQuorum (run pre).snap it.evs d.2.1 ∧
+      (run (pre ++ [.attest d.1 hint hard soft])).declared = (run pre).declared ++ [d] ∧
+      get (run (pre ++ [.attest d.1 hint hard soft])).queue d.1 = none := by
+  induction ops using snoc_ind with
+  | hnil => simp [run, runFrom, St.init] at hd
+  | hsnoc ops op ih =>
+    have hstep := run_snoc ops op
+    have ht := step_tr (run ops) op
+    rw [← hstep] at ht
+    have extend : d ∈ (run ops).declared →
+        ∃ pre post hint hard soft it, ops ++ [op] = pre ++ .attest d.1 hint hard soft :: post ∧
+          outcomeOf hard soft d.2.1 ≠ .hard ∧
+          d.2.2 = (outcomeOf hard soft d.2.1 == .soft) ∧ get (run pre).queue d.1 = some it ∧
+          GroupQuorum (run pre).snap it.evs d.2.1 ∧
+          (run (pre ++ [.attest d.1 hint hard soft])).declared = (run pre).declared ++ [d] ∧
+          get (run (pre ++ [.attest d.1 hint hard soft])).queue d.1 = none := fun h => by
+      obtain ⟨pre, post, hint, hard, soft, it, hops, h1, h2, h3, h4, h5, h6⟩ := ih h
+      exact ⟨pre, post ++ [op], hint, hard, soft, it, by rw [hops]; simp, h1, h2, h3, h4, h5, h6⟩
+    rcases tr_declared (inv_run ops) ht with
+      hsame | ⟨id, hint, hard, soft, w, it, hop, hout, hg, hq, hdecl, hgone⟩
+    · rw [hsame] at hd; exact extend hd
+    · rw [hdecl] at hd
+      rcases List.mem_append.mp hd with hd | hd
+      · exact extend hd
+      · simp at hd; subst hd
+        refine ⟨ops, [], hint, hard, soft, it, by rw [hop], hout, rfl, hg, hq, ?_, ?_⟩
+        · rw [← hop]; exact hdecl
+        · rw [← hop]; exact hgone
+
+/-- **removal_needs_quorum** ("and only then removed with its effects applied"). In every reachable
+state, an operation after which a queued message is gone is either `prune` (time-out / superseded:
+nothing is declared) or its attestation with quorum, which appends exactly its declaration in the same
+step. -/
+theorem removal_needs_quorum (pre : List Op) (op : Op) (id : Nat) (it : Item)
+    (hg : get (run pre).queue id = some it) (hgone : get (run (pre ++ [op])).queue id = none) :
+    (op = .prune id ∧ (run (pre ++ [op])).declared = (run pre).declared) ∨
+    (∃ hint hard soft w, op = .attest id hint hard soft ∧ outcomeOf hard soft w ≠ .hard ∧
+      GroupQuorum (run pre).snap it.evs w ∧
+      (run (pre ++ [op])).declared = (run pre).declared ++ [(id, w, outcomeOf hard soft w == .soft)]) := by
+  have ht := step_tr (run pre) op
+  rw [← run_snoc] at ht
+  exact tr_removal (inv_run pre) ht id it hg hgone
+
+/-- **declared_once_and_gone.** A message is declared at most once, and once declared it never shows
+up in the queue again (ids are fresh). -/
+theorem declared_once_and_gone (ops : List Op) :
+    ((run ops).declared.map (·.1)).Nodup ∧
+    ∀ d ∈ (run ops).declared, ∀ more, get (run (ops ++ more)).queue d.1 = none := by
+  have hI := inv_run ops
+  refine ⟨hI.decl_nodup, ?_⟩
+  intro d hd more
+  rw [run_append]
+  exact gone_forever _ hI d.1 (hI.decl_gone d hd).1 (hI.decl_gone d hd).2 more
+
+/-- **noncommitting_is_noop** (all refused / failed / no-quorum branches, explicitly). Whenever an
+operation answers anything but `ok`, a new id, `elected` or `declared` — unknown id, refused estimate,
+no evidence, consensus not achieved, zero median, failed fee step, hard attester failure — the state
+is unchanged. -/
+theorem noncommitting_is_noop (s : St) (op : Op) (h : (step s op).2.commits = false) :
+    apply s op = s := by
+  unfold apply
+  cases op with
+  | snap sn => simp [step, Res.commits] at h
+  | put req => simp [step, Res.commits] at h
+  | ev id a hh =>
+    simp only [step, evStep] at *
+    split
+    · rfl
+    · rename_i it hg; simp [hg, Res.commits] at h
+  | est id a v =>
+    simp only [step, estStep] at *
+    split
+    · rfl
+    · rename_i hv1
+      simp only [hv1] at h
+      split
+      · rfl
+      · rename_i it hg
+        simp only [hg] at h
+        split
+        · rfl
+        · rename_i hreq
+          simp only [hreq] at h
+          split
+          · rfl
+          · rename_i hv
+            simp only [hv] at h
+            split
+            · rfl
+            · rename_i es hadd; simp [hadd, Res.commits] at h
+  | elect id feeOk =>
+    simp only [step, electStep] at *
+    split
+    · rfl
+    · rename_i it hg
+      simp only [hg] at h
+      split
+      · rfl
+      · rename_i hreq
+        simp only [hreq] at h
+        split
+        · rfl
+        · rename_i hlen
+          simp only [hlen] at h
+          split
+          · rfl
+          · rename_i h0
+            simp only [h0] at h
+            split
+            · rfl
+            · rfl
+            · rename_i g hver
+              simp only [hver] at h
+              split
+              · rfl
+              · rename_i g' hset
+                simp only [hset] at h
+                cases feeOk
+                · rfl
+                · simp [Res.commits] at h
+  | attest id hint hard soft =>
+    simp only [step, attestStep] at *
+    split
+    · rfl
+    · rename_i it hg
+      simp only [hg] at h
+      split
+      · rfl
+      · rename_i hev
+        simp only [hev] at h
+        split
+        · rfl
+        · rename_i ws hver
+          simp only [hver] at h
+          cases ho : outcomeOf hard soft (pickWinner ws hint)
+          · simp [ho, Res.commits] at h
+          · simp [ho, Res.commits] at h
+          · rfl
+  | prune id =>
+    simp only [step] at *
+    split
+    · rfl
+    · rename_i it hg; simp [hg, Res.commits] at h
+
+/-- A hard attester failure drops the cache: nothing is removed, nothing declared. -/
+theorem hard_failure_is_noop (s : St) (id hint : Nat) (hard soft : List Nat) (w : Nat)
+    (h : (step s (.attest id hint hard soft)).2 = .hardFail w) :
+    apply s (.attest id hint hard soft) = s := by
+  apply noncommitting_is_noop
+  rw [h]; rfl
+
+/-- A failing fee step drops the cache: the election is not recorded. -/
+theorem fee_failure_is_noop (s : St) (id : Nat) : apply s (.elect id false) = s := by
+  apply noncommitting_is_noop
+  simp only [step, electStep]
+  split
+  · rfl
+  · split
+    · rfl
+    · split
+      · rfl
+      · split
+        · rfl
+        · split
+          · rfl
+          · rfl
+          · split <;> rfl
+
+
+/-- **elected_changes_only_by_election** ("requires submissions from 2/3 …, is their median"). In
+every reachable state, an operation that changes the elected estimate of a queued message is its
+committed election, the value was unset before, and the new value satisfies `EstQuorum` for the
+estimates and the snapshot of that moment. -/
+theorem elected_changes_only_by_election (pre : List Op) (op : Op) (id : Nat) (it it' : Item)
+    (hg : get (run pre).queue id = some it) (hg' : get (run (pre ++ [op])).queue id = some it')
+    (hne : it'.elected ≠ it.elected) :
+    op = .elect id true ∧ it.elected = 0 ∧ it'.ests = it.ests ∧
+      EstQuorum (run pre).snap it.ests it'.elected := by
+  have ht := step_tr (run pre) op
+  rw [← run_snoc] at ht
+  have hI := inv_run pre
+  rcases tr_frame ht id it' hg' with ⟨it₀, hg₀, _, _, _, hests, hel⟩ | ⟨req, hop, hid, hit⟩
+  · rw [hg] at hg₀; injection hg₀ with e; subst e
+    rcases hel with hel | ⟨hop, h0, hver⟩
+    · exact absurd hel hne
+    · have hmem := (get_some hg).1
+      have hests' : it'.ests = it.ests := by
+        rcases hests with h | ⟨a, v, hop', _⟩
+        · exact h
+        · rw [hop] at hop'; cases hop'
+      exact ⟨hop, h0, hests',
+        estQuorum_of_elected _ _ _ (hI.ests_nodup it hmem) (fun e he => (hI.ests_u64 it hmem e he).2) hver⟩
+  · exfalso
+    have hle := hI.ids_le it (get_some hg).1
+    rw [(get_some hg).2] at hle
+    omega
+
+/-- **elected_never_changes** ("once elected never changes", all histories). Once a queued message has
+a non-zero elected estimate, whatever operations follow, as long as the message is queued its elected
+estimate is that value. -/
+theorem elected_never_changes (pre post : List Op) (id : Nat) (it it' : Item)
+    (hg : get (run pre).queue id = some it) (h0 : it.elected ≠ 0)
+    (hg' : get (run (pre ++ post)).queue id = some it') : it'.elected = it.elected := by
+  rw [run_append] at hg'
+  exact elected_never_changes_from _ (inv_run pre) id it hg h0 post it' hg'
+
+/-- **elected_provenance.** Every non-zero elected estimate found in a reachable state was written by a
+committed `elect` step of the history, from the unset state, with `EstQuorum` for the estimates and
+the snapshot current at that step. -/
+theorem elected_provenance (ops : List Op) (id : Nat) (it : Item)
+    (hg : get (run ops).queue id = some it) (h0 : it.elected ≠ 0) :
+    ∃ pre post it₀, ops = pre ++ .elect id true :: post ∧ get (run pre).queue id = some it₀ ∧
+      it₀.elected = 0 ∧ EstQuorum (run pre).snap it₀.ests it.elected := by
+  induction ops using snoc_ind generalizing it with
+  | hnil => simp [run, runFrom, St.init, get] at hg
+  | hsnoc ops op ih =>
+    have ht := step_tr (run ops) op
+    rw [← run_snoc] at ht
+    rcases tr_frame ht id it hg with ⟨it₀, hg₀, _, _, _, _, hel⟩ | ⟨req, hop, hid, hit⟩
+    · by_cases hsame : it.elected = it₀.elected
+      · obtain ⟨pre, post, it₁, hops, h1, h2, h3⟩ := ih it₀ hg₀ (by rw [← hsame]; exact h0)
+        exact ⟨pre, post ++ [op], it₁, by rw [hops]; simp, h1, h2, by rw [hsame]; exact h3⟩
+      · have := elected_changes_only_by_election ops op id it₀ it hg₀ hg hsame
+        exact ⟨ops, [], it₀, by rw [this.1], hg₀, this.2.1, this.2.2.2⟩
+    · rw [hit] at h0; exact absurd rfl h0
+
+/-- The second guard (`SetElectedGasEstimate` refusing an already elected message) is never the one that
+fires: `checkAndProcessEstimatedMessage` has skipped such messages before. -/
+theorem refused_unreachable (s : St) (id : Nat) (feeOk : Bool) :
+    (step s (.elect id feeOk)).2 ≠ .refused := by
+  simp only [step, electStep]
+  split
+  · simp
+  · rename_i it hg
+    split
+    · simp
+    · split
+      · simp
+      · split
+        · simp
+        · rename_i h0
+          have h0' : it.elected = 0 := by omega
+          split
+          · simp
+          · simp
+          · simp only [setElected, h0']
+            simp only [bne_self_eq_false, Bool.false_eq_true, if_false]
+            split <;> simp
+
+/-- Behind the message server (which refuses the value 0) the `gas estimate is zero` branch of
+`VerifyGasEstimates` is dead: in every reachable state no queued message's estimates have median 0. -/
+theorem zero_median_unreachable (ops : List Op) (it : Item) (h : it ∈ (run ops).queue) :
+    verifyGasEstimates (run ops).snap it.ests ≠ .zero := by
+  intro hz
+  have hI := inv_run ops
+  unfold verifyGasEstimates at hz
+  split at hz
+  · cases hz
+  · rename_i hc
+    simp only at hz
+    split at hz
+    · rename_i hm
+      have hm' : median (it.ests.map (·.2)) = 0 := by simpa using hm
+      have hne : it.ests.map (·.2) ≠ [] := by
+        intro e
+        have : it.ests = [] := by simpa using e
+        rw [this] at hc
+        simp [tally, foundShares, Power.consensus] at hc
+      have hb : ∀ x ∈ it.ests.map (·.2), x < U64 := by
+        intro x hx
+        rcases List.mem_map.mp hx with ⟨e, he, rfl⟩
+        exact (hI.ests_u64 it h e he).2
+      obtain ⟨a, ha, _, _, h1, _⟩ := median_in_range _ hne hb
+      rcases List.mem_map.mp ha with ⟨e, he, rfl⟩
+      have := (hI.ests_u64 it h e he).1
+      omega
+    · cases hz
+
+/-- **attest_deterministic.** If every snapshot published in the history is `SnapOK` (ASSUMPTION on the
+valset keeper, C10), then in every reachable state the outcome of an attestation does not depend on
+which quorum group Go's map iteration meets first. -/
+theorem attest_deterministic (ops : List Op) (hsn : ∀ sn, Op.snap sn ∈ ops → SnapOK sn)
+    (id hint hint' : Nat) (hard soft : List Nat) :
+    step (run ops) (.attest id hint hard soft) = step (run ops) (.attest id hint' hard soft) := by
+  have hI := inv_run ops
+  have hs := snapOK_run ops hsn
+  generalize run ops = s at hI hs
+  simp only [step, attestStep]
+  split
+  · rfl
+  · rename_i it hg
+    split
+    · rfl
+    · split
+      · rfl
+      · rename_i ws hver
+        obtain ⟨_, hws, hne⟩ := (verifyEvidence_winnerIn_iff _ _ _).mp hver
+        have hlen := winners_at_most_one s.snap it.evs hs (hI.evs_nodup it (get_some hg).1)
+        rw [← hws] at hlen
+        have : ∃ w, ws = [w] := by
+          cases ws with
+          | nil => exact absurd rfl hne
+          | cons w rest =>
+            cases rest with
+            | nil => exact ⟨w, rfl⟩
+            | cons _ _ => simp at hlen
+        obtain ⟨w, rfl⟩ := this
+        simp only [pickWinner_singleton]
+
+end Hist
+
 /-! ### non-vacuity -/
 example : verifyEvidence ⟨[(1,5),(2,5),(3,5)], 15⟩ [(1,7),(2,7),(3,8),(9,7)] = .winnerIn [7] := by decide
 example : verifyEvidence ⟨[(1,5),(2,5),(3,5)], 15⟩ [(1,7),(2,8),(3,9)] = .notAchieved := by decide
 example : median [5, 1, 9, 3] = 4 ∧ median [18446744073709551615, 18446744073709551613] = 18446744073709551614 := by decide
 example : verifyGasEstimates ⟨[(1,5),(2,5),(3,5)], 15⟩ [(1,100),(2,300),(9,200)] = .elected 200 := by decide
+
+/-! non-vacuity through `run` from the initial state -/
+open Hist in
+/-- quorum by two of three equal validators, an outsider's estimate counts for the median but not for
+    the quorum, a second estimate is refused, the election happens once and later steps keep it -/
+example :
+    trace [.snap ⟨[(1,5),(2,5),(3,5)], 15⟩, .put true, .est 1 1 100, .elect 1 true, .est 1 2 300,
+           .est 1 9 200, .est 1 1 7, .elect 1 false, .elect 1 true, .est 1 3 1, .elect 1 true,
+           .snap ⟨[(3,1)], 1⟩, .elect 1 true]
+      = [.ok, .newId 1, .ok, .notAchieved, .ok, .ok, .rejected, .feeFailed, .elected 200, .ok, .skipped,
+         .ok, .skipped] ∧
+    (run [.snap ⟨[(1,5),(2,5),(3,5)], 15⟩, .put true, .est 1 1 100, .elect 1 true, .est 1 2 300,
+          .est 1 9 200, .est 1 1 7, .elect 1 false, .elect 1 true, .est 1 3 1, .elect 1 true,
+          .snap ⟨[(3,1)], 1⟩, .elect 1 true]).queue
+      = [{ id := 1, req := true, ests := [(1,100),(2,300),(9,200),(3,1)], elected := 200 }] := by decide
+open Hist in
+/-- split vote → not achieved; re-submission replaces; hard failure keeps the message; the soft
+    failure removes it with its declaration; afterwards the id is gone -/
+example :
+    trace [.snap ⟨[(1,5),(2,5),(3,5)], 15⟩, .put false, .ev 1 1 7, .ev 1 2 8, .ev 1 9 7, .attest 1 7 [] [],
+           .ev 1 2 7, .attest 1 7 [7] [], .attest 1 7 [8] [7], .attest 1 7 [] [], .ev 1 3 7, .prune 1]
+      = [.ok, .newId 1, .ok, .ok, .ok, .notAchieved, .ok, .hardFail 7, .declared 7 true, .absent,
+         .rejected, .rejected] ∧
+    (run [.snap ⟨[(1,5),(2,5),(3,5)], 15⟩, .put false, .ev 1 1 7, .ev 1 2 8, .ev 1 9 7, .attest 1 7 [] [],
+          .ev 1 2 7, .attest 1 7 [7] [], .attest 1 7 [8] [7], .attest 1 7 [] [], .ev 1 3 7, .prune 1])
+      = { snap := ⟨[(1,5),(2,5),(3,5)], 15⟩, nextId := 1, queue := [], declared := [(1, 7, true)] } := by decide
+open Hist in
+/-- exactly 2/3 passes, one share short does not (total not divisible by 3) -/
+example :
+    trace [.snap ⟨[(1,7),(2,3)], 10⟩, .put false, .ev 1 1 4, .attest 1 0 [] []] = [.ok, .newId 1, .ok, .declared 4 false] ∧
+    trace [.snap ⟨[(1,6),(2,4)], 10⟩, .put false, .ev 1 1 4, .attest 1 0 [] []] = [.ok, .newId 1, .ok, .notAchieved] ∧
+    accepted [.ev 1 1 9, .put false, .ev 1 1 4, .ev 2 1 5, .ev 1 1 6] 1 = [(1,4),(1,6)] := by decide
 
 end Paloma.Libcons
